@@ -67,17 +67,34 @@ def _mods():
             self._lin = numpy.array([[_f(v) for v in r] for r in t["lin"]], dtype=float).reshape(len(space), -1)
             self._quad = numpy.array([[_f(v) for v in r] for r in t["quad"]], dtype=float) if t.get("quad") else None
             self._posw = numpy.array([_f(v) for v in t["posw"]], dtype=float) if t.get("posw") else None
-            self._ineq = [(numpy.array([_f(v) for v in c["cost"]]), _f(c["budget"])) for c in t.get("ineq", [])]
-            self._eq = [(numpy.array([_f(v) for v in c["vec"]]), _f(c["target"])) for c in t.get("eq", [])]
+            # "signed": the constraint function returns the signed slack cost(x) - budget (the documented
+            # G(x) <= 0 form: NEGATIVE when satisfied) instead of the penalty max(0, cost(x) - budget)
+            self._ineq = [(numpy.array([_f(v) for v in c["cost"]]), _f(c["budget"]), bool(c.get("signed"))) for c in t.get("ineq", [])]
+            self._eq = [(numpy.array([_f(v) for v in c["vec"]]), _f(c["target"]), bool(c.get("signed"))) for c in t.get("eq", [])]
             self._mean = bool(t["mean"])
             self.log = None
             k = int(t["k"])
             super().__init__(
                 ndecn=k, decn_space=numpy.array(space, dtype=int),
-                decn_space_lower=numpy.repeat(min(space), k), decn_space_upper=numpy.repeat(max(space), k),
+                # both bounds are documented Optional: "bounds" = "none" | "no_lower" | "no_upper" leaves them out
+                decn_space_lower=None if t.get("bounds") in ("none", "no_lower") else numpy.repeat(min(space), k),
+                decn_space_upper=None if t.get("bounds") in ("none", "no_upper") else numpy.repeat(max(space), k),
                 nobj=len(t["obj_wt"]), obj_wt=numpy.array([_f(v) for v in t["obj_wt"]]),
                 nineqcv=len(self._ineq), ineqcv_wt=numpy.array([_f(v) for v in t.get("ineq_wt", [])]),
-                neqcv=len(self._eq), eqcv_wt=numpy.array([_f(v) for v in t.get("eq_wt", [])]))
+                neqcv=len(self._eq), eqcv_wt=numpy.array([_f(v) for v in t.get("eq_wt", [])]),
+                **({"elementwise": False} if t.get("elementwise") is False else {}))
+            # rarely used array forms of the candidate set: a non-contiguous view, narrow integer dtypes, read-only
+            form = t.get("space_form")
+            if form == "strided":
+                big = numpy.zeros(2 * len(space), dtype=int)
+                big[::2] = space
+                self.decn_space = big[::2]
+            elif form in ("int32", "int8"):
+                self.decn_space = numpy.array(space, dtype=form)
+            elif form == "readonly":
+                arr = numpy.array(space, dtype=int)
+                arr.setflags(write=False)
+                self.decn_space = arr
 
         def evalfn(self, x, *args, **kwargs):
             if self.log is not None:
@@ -90,8 +107,10 @@ def _mods():
                 obj[0] += sum(self._quad[ix[p], ix[q]] for p in range(len(ix)) for q in range(p + 1, len(ix)))
             if self._posw is not None:
                 obj[0] += float((self._posw * rows[:, 0]).sum())
-            ineq = numpy.array([max(0.0, float(c[ix].sum()) - b) for c, b in self._ineq], dtype=float)
-            eq = numpy.array([abs(float(c[ix].sum()) - b) for c, b in self._eq], dtype=float)
+            ineq = numpy.array([(float(c[ix].sum()) - b) if sg else max(0.0, float(c[ix].sum()) - b)
+                                for c, b, sg in self._ineq], dtype=float)
+            eq = numpy.array([(float(c[ix].sum()) - b) if sg else abs(float(c[ix].sum()) - b)
+                              for c, b, sg in self._eq], dtype=float)
             return self.obj_wt * obj, self.ineqcv_wt * ineq, self.eqcv_wt * eq
 
     def make_vector_problem(kind, t):
@@ -103,19 +122,32 @@ def _mods():
         else:
             lo = numpy.array([int(v) for v in t["lower"]], dtype=int)
             hi = numpy.array([int(v) for v in t["upper"]], dtype=int)
-        cap = _f(t["cap"]) if t.get("cap") is not None else None
+        # constraints: "cap" (penalty max(0, sum(x) - cap)) and/or a list "ineq" of linear constraints
+        # coef . x - budget, each either signed (negative slack when satisfied) or a penalty max(0, .)
+        cons = []
+        if t.get("cap") is not None:
+            cons.append((numpy.ones(len(lo)), _f(t["cap"]), False))
+        for c in t.get("ineq", []):
+            cons.append((numpy.array([_f(v) for v in c["coef"]], dtype=float), _f(c["budget"]), bool(c.get("signed"))))
+        quadw = _f(t["quadw"]) if t.get("quadw") is not None else None
 
         class VectorProblem(base):
             def __init__(self):
                 super().__init__(ndecn=len(lo), decn_space=numpy.stack([lo, hi]), decn_space_lower=lo,
                                  decn_space_upper=hi, nobj=C.shape[0],
                                  obj_wt=numpy.array([_f(v) for v in t["obj_wt"]]),
-                                 nineqcv=(1 if cap is not None else 0))
+                                 nineqcv=len(cons),
+                                 **({"elementwise": False} if t.get("elementwise") is False else {}))
 
             def evalfn(self, x, *args, **kwargs):
                 xf = numpy.asarray(x, dtype=float)
-                obj = self.obj_wt * C.dot(xf)
-                ineq = numpy.array([max(0.0, float(xf.sum()) - cap)]) if cap is not None else numpy.zeros(0)
+                raw = C.dot(xf)
+                if quadw is not None:          # makes the first two objectives conflict: a real trade-off curve
+                    raw = raw.copy()
+                    raw[0] += quadw * float((xf * xf).sum())
+                obj = self.obj_wt * raw
+                ineq = numpy.array([(float(a.dot(xf)) - b) if sg else max(0.0, float(a.dot(xf)) - b) for a, b, sg in cons],
+                                   dtype=float) if cons else numpy.zeros(0)
                 return obj, self.ineqcv_wt * ineq, numpy.zeros(0)
 
         return VectorProblem()
@@ -348,7 +380,8 @@ def _snapshot(prob):
         elif isinstance(v, (int, float, bool, str, type(None), numpy.integer, numpy.floating)):
             out[k] = repr(v)
         elif isinstance(v, (list, tuple, dict)):
-            out[k] = repr(v) if "array" not in repr(v) else repr([(numpy.asarray(a).tobytes(), b) for a, b in v])
+            out[k] = repr(v) if "array" not in repr(v) else repr(
+                [tuple((a.tobytes() if isinstance(a, numpy.ndarray) else a) for a in item) for item in v])
     return out
 
 
@@ -381,44 +414,74 @@ def _finite(x):
 class C06(Prop):
     PID = "C06"
     MODULE = "PybropsModel.Props.C06"
-    N_QUICK = 700
-    N_THOROUGH = 12000
-    CORRESPONDENCE = "functional (sorting, hill-climbers, pymoo_addon operators) + relational (16 optimiser classes)"
-    RULE = ("table-driven subset problems (2-10 candidates with arbitrary distinct integer labels, subset size 1..min(n,5) "
+    N_QUICK = 560
+    N_THOROUGH = 4000
+    CORRESPONDENCE = ("functional (sorting, hill-climbers incl. the older copy, pymoo_addon operators, Solution assembly from "
+                      "res.X/F/G/H) + relational (16 optimiser classes, histories)")
+    RULE = ("table-driven subset problems (2-12 candidates with arbitrary distinct integer labels, subset size 1..min(n,5) "
             "including n = k, 1-3 objectives with mixed-sign weights, sum or mean aggregation, optional pairwise and "
-            "position-dependent terms, 0-2 inequality and 0-1 equality constraints, tied objective values) run through the "
-            "sorting optimiser, both hill-climbers (real and scripted generators) and all subset/real/integer/binary "
-            "evolutionary optimisers (1-4 generations, population 2-10, seeded; 40 % of the subset runs on tight candidate sets "
-            "n = k+1, k+2 with k >= 3, 3-6 generations); separable problems with a tie exactly at the k-th key and better "
-            "candidates listed after the tied ones; mostly non-separable tables for the sorting hill climber; "
-            "operator-level cases with scripted "
-            "draws (repeated exchange positions, identical parents, n = k).  Non-trivial = n > k and the returned decision "
-            "differs from the first k candidates, or an operator case that changes at least one chromosome")
+            "position-dependent terms, 0-2 inequality and 0-1 equality constraints written either as penalties max(0, .) / |.| or "
+            "in the signed G(x) <= 0 form (negative slack when satisfied), optional bounds left out, tied objective values; "
+            "magnitudes: O(1) integers and halves, a large common offset (25000 + {0..11}, 1e9 + {0..23}/2) and a tiny scale "
+            "(multiples of 2^-30 / 2^-40)) run through the sorting optimiser, both hill-climbers (Generator, RandomState and scripted "
+            "generators, with and without miscout), the older UnconstrainedSteepestAscentSetHillClimber and all subset/real/integer/"
+            "binary evolutionary optimisers (1-5 generations, population 2-12, seeded; a third of the subset runs on tight candidate "
+            "sets n = k+1, k+2; linear real/integer/binary problems with 0-2 signed or penalty constraints, integer ranges entirely "
+            "below zero); long climbs (a hidden chain needing n-2 exchanges with k = 2), order-dependent objectives whose climb "
+            "meets the same member set in several arrangements, separable problems with a tie exactly at the k-th key; HISTORIES on "
+            "one problem object and one algorithm object per class: repeated minimize, re-assigned obj_wt / ineqcv_wt / candidate set / "
+            "bounds between runs, a series of problem objects (earlier ones released), in-place edits of a returned Solution, every "
+            "Solution judged at its return and again at the end of the history; operator-level cases with scripted draws (repeated "
+            "exchange positions, identical parents, n = k, negative integer bounds).  Non-trivial = n > k and the returned decision "
+            "differs from the first k candidates, a history with at least two solutions, or an operator case that changes at least "
+            "one chromosome")
     TRUSTED = [
         "pymoo's evolutionary loop (selection, survival, duplicate elimination, termination) is not modelled: feasibility "
-        "is proved for an arbitrary re-selection between operator applications; truthfulness and non-domination of the "
-        "returned set are checked by the Lean Spec on every run",
+        "is proved for an arbitrary re-selection between operator applications; truthfulness is proved for the Solution assembled "
+        "from ANY set of members pymoo ends with, under pymoo's contract that each member carries the vectors Problem._evaluate "
+        "handed over for it (re-checked on every run: Lean Spec on every returned Solution and `c06.assemble` on the recorded "
+        "res.X/F/G/H); non-domination of the returned set is checked by the Lean Spec on every run",
         "numpy's argsort returns a permutation that sorts its argument; ties may be broken in any order (the SIMD / "
         "introsort default is not stable), so decisions are compared with the model up to ties and the optimality "
         "theorem is proved for every sorting permutation",
         "numpy.random.choice(a, k, replace=False) returns k distinct positions of a",
-        "pymoo SBX / polynomial mutation return values inside [xl, xu] (re-checked on every recorded call)",
+        "pymoo's cross_sbx ends with repair_clamp and mut_pm with set_to_bounds_if_outside (pymoo 0.6.2 sources, read): the "
+        "integer-operator theorem covers every value the real-coded arithmetic can produce before that clamp; the in-bounds "
+        "output is re-checked on every recorded call",
     ]
     ASSUMPTIONS = ["objective / constraint tables are integers or dyadic rationals, so numpy's float arithmetic is exact "
-                   "(mean aggregation: within 1e-9)",
+                   "(mean aggregation: within 1e-9 relative)",
                    "an optimiser that raises because pymoo found no feasible individual (res.X is None) returns no "
-                   "solution: the property constrains returned solutions only (recorded as `no_feasible`)"]
+                   "solution: the property constrains returned solutions only (recorded as `no_feasible`)",
+                   "local optimality is judged with the violation of the problem formulation G <= 0, H = 0: "
+                   "(sum max(0,g) + sum |h|, sum obj); for penalty-style constraint functions this is the climbers' own key "
+                   "(sum g + sum h, sum obj); for signed constraint functions the two differ (finding D41)",
+                   "equality constraints of the evolutionary runs have integer data, so |H| is 0 or >= 1/2 and pymoo's "
+                   "feasibility tolerance (1e-4) cannot make a member with H != 0 count as feasible"]
 
     # ------------------------------------------------------------------ generation
     @staticmethod
-    def _table(rng, n=None, k=None, nobj=1, separable=False, cons=None, mean=None, tie=False):
+    def _table(rng, n=None, k=None, nobj=1, separable=False, cons=None, mean=None, tie=False, mag=None, signed=False):
+        """mag: None (O(1) integers / halves), "offset" (a large common offset: 25000 + {0..11} or 1e9 + {0..23}/2, so
+        that improvements are far below 1e-5 * |score|), "tiny" (multiples of 2^-30 or 2^-40: whole objective range
+        below 1e-8).  signed: constraint functions return the signed slack (negative when satisfied)"""
         n = n if n is not None else rng.choice([2, 3, 4, 4, 5, 5, 6, 6, 7, 8, 9, 10])
         k = k if k is not None else rng.choice([x for x in (1, 2, 2, 3, 3, 4, 5) if x <= n] + ([n] if rng.random() < 0.15 else []))
         space = rng.sample(range(-9, 60), n)
         hi = rng.choice([1, 3, 6, 9]) if tie else rng.choice([3, 9, 20])
-        lin = [[rng.randint(-hi, hi) for _ in range(nobj)] for _ in range(n)]
-        if rng.random() < 0.2:
-            lin = [[Fraction(v, 2) for v in r] for r in lin]
+        unit = Fraction(1)
+        if mag == "offset":
+            if rng.random() < 0.6:
+                lin = [[25000 + rng.randint(0, 11) for _ in range(nobj)] for _ in range(n)]
+            else:
+                lin = [[10 ** 9 + Fraction(rng.randint(0, 23), 2) for _ in range(nobj)] for _ in range(n)]
+        elif mag == "tiny":
+            unit = Fraction(1, 2 ** rng.choice([30, 30, 40]))
+            lin = [[rng.randint(-hi, hi) * unit for _ in range(nobj)] for _ in range(n)]
+        else:
+            lin = [[rng.randint(-hi, hi) for _ in range(nobj)] for _ in range(n)]
+            if rng.random() < 0.2:
+                lin = [[Fraction(v, 2) for v in r] for r in lin]
         t = {"space": space, "k": k, "lin": canon.enc(lin),
              "mean": (rng.random() < 0.4) if mean is None else mean,
              "obj_wt": canon.enc([rng.choice([1, 1, -1, -1, 2, Fraction(1, 2)]) for _ in range(nobj)])}
@@ -427,14 +490,18 @@ class C06(Prop):
                 q = [[0] * n for _ in range(n)]
                 for a in range(n):
                     for b in range(a + 1, n):
-                        q[a][b] = q[b][a] = rng.randint(-4, 4)
-                t["quad"] = q
-            if rng.random() < 0.25:
+                        q[a][b] = q[b][a] = rng.randint(-4, 4) * unit
+                t["quad"] = canon.enc(q)
+            if rng.random() < 0.25 and mag is None:
                 t["posw"] = [rng.randint(0, 3) for _ in range(k)]
         if t["mean"] and (t.get("quad") or t.get("posw")) and k not in (1, 2, 4, 8):
             # 1/k is not a binary fraction: (1/k)*s + q may break in floats a tie that is exact over the
             # rationals, and the hill-climber correspondence is functional (it follows every comparison)
             t["mean"] = False
+        if t["mean"] and mag is not None and k not in (1, 2, 4, 8):
+            t["mean"] = False           # keep every float operation exact on the extreme magnitudes
+        if rng.random() < 0.1:
+            t["space_form"] = rng.choice(["strided", "int32", "int8", "readonly"])
         cons = cons if cons is not None else rng.choice(["none", "none", "ineq", "ineq", "eq", "both", "tight"])
         if cons in ("ineq", "both", "tight"):
             t["ineq"], t["ineq_wt"] = [], []
@@ -443,14 +510,136 @@ class C06(Prop):
                 srt = sorted(cost)
                 lo, up = sum(srt[:k]), sum(srt[-k:])
                 budget = lo if cons == "tight" else rng.randint(lo, max(lo, up))
-                t["ineq"].append({"cost": cost, "budget": budget})
+                c = {"cost": cost, "budget": budget}
+                if signed and rng.random() < 0.8:
+                    c["signed"] = True
+                t["ineq"].append(c)
                 t["ineq_wt"].append(canon.enc(rng.choice([1, 1, 2, Fraction(1, 2)])))
         if cons in ("eq", "both"):
             vec = [rng.randint(0, 1) for _ in range(n)]
+            if cons == "both" and rng.random() < 0.5:
+                vec = [1] * n          # met by every subset: equality and inequality values both reported, H = 0 != G
             some = rng.sample(range(n), k)
             t["eq"] = [{"vec": vec, "target": sum(vec[i] for i in some)}]
+            if signed and rng.random() < 0.5:
+                t["eq"][0]["signed"] = True
             t["eq_wt"] = [canon.enc(rng.choice([1, 2]))]
         return t
+
+    @staticmethod
+    def _ref_moves(t, init):
+        """number of exchanges the steepest-descent climber makes from `init` on an unconstrained table problem
+        (reference re-implementation in exact arithmetic; only used to SELECT long climbs, never to judge)"""
+        pos = {e: i for i, e in enumerate(t["space"])}
+        lin = [canon.dec(r[0]) for r in t["lin"]]
+        quad = [[canon.dec(v) for v in r] for r in t["quad"]] if t.get("quad") else None
+        w = canon.dec(t["obj_wt"][0])
+        posw = [canon.dec(v) for v in t["posw"]] if t.get("posw") else None
+
+        def score(x):
+            ix = [pos[e] for e in x]
+            sc = sum(lin[i] for i in ix)
+            if posw:
+                sc += sum(pw * lin[i] for pw, i in zip(posw, ix))
+            if quad:
+                sc += sum(quad[ix[a]][ix[b]] for a in range(len(ix)) for b in range(a + 1, len(ix)))
+            return w * sc
+        soln = list(init)
+        wrk = [e for e in t["space"] if e not in soln]
+        cur = score(soln)
+        moves = 0
+        while moves < 200:
+            best = None
+            for i in range(len(soln)):
+                for j in range(len(wrk)):
+                    soln[i], wrk[j] = wrk[j], soln[i]
+                    sc = score(soln)
+                    if sc < (best[0] if best else cur):
+                        best = (sc, i, j)
+                    soln[i], wrk[j] = wrk[j], soln[i]
+            if best is None:
+                return moves
+            cur, i, j = best
+            soln[i], wrk[j] = wrk[j], soln[i]
+            moves += 1
+        return moves
+
+    @staticmethod
+    def _position_dependent(rng):
+        """order-dependent objective (as in mate selection, where the positions of the subset vector are the
+        female / male slots): score = Σ_p posw[p] * lin[x_p] with distinct position weights, few spare candidates, so
+        that the climb meets the same SET of members in different arrangements (a cache keyed by the set, or a
+        re-evaluation of the sorted decision, reports the value of another arrangement)"""
+        best = None
+        for _ in range(6):             # the longest of a few random climbs (more arrangements of the same sets)
+            k = rng.choice([2, 3, 3, 4])
+            n = k + rng.choice([1, 1, 2, 3])
+            space = rng.sample(range(-9, 60), n)
+            posw = rng.sample(range(0, 7), k)
+            t = {"space": space, "k": k, "lin": [[rng.randint(-9, 9)] for _ in range(n)], "mean": False,
+                 "obj_wt": [rng.choice([1, -1, 2])], "posw": posw}
+            init = rng.sample(space, k)
+            mv = C06._ref_moves(t, init)
+            if best is None or mv > best[0]:
+                best = (mv, t, init)
+        _, t, init = best
+        dup = list(init)
+        dup[-1] = dup[0]
+        return {"kind": "hillclimb", "prob": t, "gen": "scripted", "init": init, "dup": dup}
+
+    @staticmethod
+    def _staircase(rng, n=None):
+        """k = 2, pairwise interactions: the pairs (p_i, p_i+1) of a hidden chain score -5(i+1), every other pair +50;
+        p_0, p_1 carry the two smallest single-member keys.  From {p_0, p_1} (also the sorted start) steepest descent
+        slides along the chain: n - 2 exchanges, each the only improving one"""
+        n = n or rng.choice([6, 7, 8, 9, 10, 12])
+        space = rng.sample(range(-9, 60), n)
+        chain = list(range(n))
+        rng.shuffle(chain)
+        q = [[50] * n for _ in range(n)]
+        for i in range(n):
+            q[i][i] = 0
+        for i in range(n - 1):
+            a, b = chain[i], chain[i + 1]
+            q[a][b] = q[b][a] = -5 * (i + 1)
+        lin = [[0] for _ in range(n)]
+        lin[chain[0]] = [-1]
+        lin[chain[1]] = [-1]
+        t = {"space": space, "k": 2, "lin": lin, "mean": False, "obj_wt": [1], "quad": q}
+        return t, [space[chain[0]], space[chain[1]]]
+
+    def _long_climb(self, rng):
+        if rng.random() < 0.6:
+            t, init = self._staircase(rng)
+            if rng.random() < 0.35:
+                return {"kind": "sorting_hillclimb", "prob": t}
+            return {"kind": "hillclimb", "prob": t, "gen": "scripted", "init": init, "dup": [init[0], init[0]]}
+        return self._long_climb_random(rng)
+
+    def _long_climb_random(self, rng):
+        """unconstrained pairwise-interaction problem and a start from which the climb takes MORE exchanges than the
+        subset has members (an iteration cap of ndecn, n or 2*ndecn moves stops before the local optimum)"""
+        best = None
+        for _ in range(12):
+            n = rng.choice([8, 9, 10, 11])
+            k = rng.choice([2, 3, 3, 4])
+            space = rng.sample(range(-9, 60), n)
+            q = [[0] * n for _ in range(n)]
+            for a in range(n):
+                for b in range(a + 1, n):
+                    q[a][b] = q[b][a] = rng.randint(-9, 9)
+            t = {"space": space, "k": k, "lin": [[rng.randint(-3, 3)] for _ in range(n)], "mean": False,
+                 "obj_wt": [rng.choice([1, -1])], "quad": q}
+            init = rng.sample(space, k)
+            mv = self._ref_moves(t, init)
+            if best is None or mv - k > best[0]:
+                best = (mv - k, t, init)
+            if mv > k + 1:
+                break
+        _, t, init = best
+        dup = list(init)
+        dup[-1] = dup[0]
+        return {"kind": "hillclimb", "prob": t, "gen": "scripted", "init": init, "dup": dup}
 
     @staticmethod
     def _boundary_tie(rng):
@@ -471,21 +660,37 @@ class C06(Prop):
                 "mean": rng.random() < 0.3, "obj_wt": [wt]}
 
     @staticmethod
-    def _vector(rng, kind, nobj):
+    def _vector(rng, kind, nobj, signed=None):
         n = rng.randint(1, 5)
         if kind == "real":
             lo = [Fraction(rng.randint(-8, 8), 4) for _ in range(n)]
             hi = [l + Fraction(rng.randint(1, 12), 4) for l in lo]
         elif kind == "integer":
-            lo = [rng.randint(-3, 3) for _ in range(n)]
+            # whole ranges below zero included (rounding of negative values, negative upper bounds)
+            lo = [rng.randint(-9, 3) for _ in range(n)]
             hi = [l + rng.randint(0, 5) for l in lo]
         else:
             lo, hi = [0] * n, [1] * n
         t = {"lower": canon.enc(lo), "upper": canon.enc(hi),
              "C": [[rng.randint(-4, 4) for _ in range(n)] for _ in range(nobj)],
              "obj_wt": canon.enc([rng.choice([1, -1, 2]) for _ in range(nobj)]), "cap": None}
-        if rng.random() < 0.4:
+        r = rng.random()
+        if r < 0.25:
             t["cap"] = canon.enc(sum(lo) + Fraction(rng.randint(0, 2 * n), 2))
+        elif r < 0.65:
+            # linear constraints coef . x <= budget with the budget between the box minimum and maximum of coef . x;
+            # signed (default 3 in 4): the reported value is the negative slack of a satisfied constraint, different
+            # for different members of a front
+            t["ineq"] = []
+            for _ in range(rng.choice([1, 1, 2])):
+                coef = [rng.randint(-3, 3) for _ in range(n)]
+                cmin = sum(min(c * l, c * h) for c, l, h in zip(coef, lo, hi))
+                cmax = sum(max(c * l, c * h) for c, l, h in zip(coef, lo, hi))
+                budget = cmin + (cmax - cmin) * Fraction(rng.choice([2, 3, 3, 4]), 4)
+                sg = (rng.random() < 0.75) if signed is None else signed
+                t["ineq"].append({"coef": coef, "budget": canon.enc(budget), "signed": sg})
+        if kind == "real" and nobj >= 2 and rng.random() < 0.3:
+            t["quadw"] = canon.enc(rng.choice([1, Fraction(1, 2)]))
         return t
 
     def corpus(self):
@@ -495,6 +700,10 @@ class C06(Prop):
                    quad=[[0, 2, 0, 3, 0, 0], [2, 0, 1, 4, 0, 0], [0, 1, 0, 0, 2, 0], [3, 4, 0, 0, 0, 1], [0, 0, 2, 0, 0, 0], [0, 0, 0, 1, 0, 0]])
         full = {"space": [5, 3, 9], "k": 3, "lin": [[1, 2], [0, 1], [2, 0]], "mean": False, "obj_wt": [1, -1]}
         mo = {"space": [10, 13, 11, 17, 12, 19], "k": 3, "lin": [[3, 1], [1, 5], [4, 1], [1, 4], [5, 9], [9, 2]], "mean": False, "obj_wt": [1, 1]}
+        stair = {"space": [20, 38, 39, 7, 15, -4, 54, -1], "k": 2, "lin": [[-1], [0], [0], [0], [0], [-1], [0], [0]], "mean": False, "obj_wt": [1],
+                 "quad": [[0, 50, -10, 50, 50, -5, 50, 50], [50, 0, 50, 50, -25, 50, 50, -20], [-10, 50, 0, 50, 50, 50, 50, -15],
+                          [50, 50, 50, 0, 50, 50, -35, 50], [50, -25, 50, 50, 0, 50, -30, 50], [-5, 50, 50, 50, 50, 0, 50, 50],
+                          [50, 50, 50, -35, -30, 50, 0, 50], [50, -20, -15, 50, 50, 50, 50, 0]]}
         small = {"space": [5, 3, 9, 1], "k": 3, "lin": [[0, 0], [2, 3], [4, 2], [1, 1]], "mean": False, "obj_wt": [1, 1]}
         return [
             {"kind": "sorting", "prob": sep},
@@ -532,6 +741,132 @@ class C06(Prop):
              "ngen": 2, "pop_size": 4, "seed": 3},
             {"kind": "ga", "algo": "NSGA2IntegerGeneticAlgorithm", "vkind": "integer",
              "prob": {"lower": [0, 0], "upper": [3, 3], "C": [[1, 2], [-1, 1]], "obj_wt": [1, 1], "cap": -1}, "ngen": 2, "pop_size": 4, "seed": 3},
+            # ---- round 4 -------------------------------------------------------------------------------------
+            # constraint functions in the documented G(x) <= 0 form (negative slack when satisfied), every pymoo-driven
+            # family: the Solution assembled from res.G / res.H must carry the signed values
+            {"kind": "ga", "algo": "SubsetGeneticAlgorithm", "prob": dict(sep, ineq=[{"cost": [1, 2, 3, 1, 2, 3], "budget": 7, "signed": True}], ineq_wt=[1]),
+             "ngen": 3, "pop_size": 6, "seed": 21},
+            {"kind": "ga", "algo": "NSGA2SubsetGeneticAlgorithm", "prob": dict(mo, ineq=[{"cost": [1, 2, 3, 1, 2, 3], "budget": 8, "signed": True},
+                                                                                      {"cost": [2, 0, 1, 1, 0, 2], "budget": 4, "signed": True}], ineq_wt=[1, 2]),
+             "ngen": 3, "pop_size": 8, "seed": 22},
+            {"kind": "ga", "algo": "NSGA3SubsetGeneticAlgorithm", "prob": dict(mo, ineq=[{"cost": [1, 2, 3, 1, 2, 3], "budget": 8, "signed": True}], ineq_wt=[1]),
+             "ngen": 2, "pop_size": 6, "seed": 23, "nrefpts": 4},
+            {"kind": "ga", "algo": "IntegerGeneticAlgorithm", "vkind": "integer",
+             "prob": {"lower": [-6, -6, -6], "upper": [-1, -1, -1], "C": [[1, 2, -1]], "obj_wt": [-1], "cap": None,
+                      "ineq": [{"coef": [1, 1, 1], "budget": -5, "signed": True}]}, "ngen": 3, "pop_size": 6, "seed": 24},
+            {"kind": "ga", "algo": "BinaryGeneticAlgorithm", "vkind": "binary",
+             "prob": {"lower": [0, 0, 0, 0], "upper": [1, 1, 1, 1], "C": [[-3, -1, -2, -2]], "obj_wt": [1], "cap": None,
+                      "ineq": [{"coef": [2, 1, 1, 2], "budget": 4, "signed": True}]}, "ngen": 3, "pop_size": 6, "seed": 25},
+            {"kind": "ga", "algo": "RealGeneticAlgorithm", "vkind": "real",
+             "prob": {"lower": [0, "-1/2"], "upper": [2, "3/2"], "C": [[1, -2]], "obj_wt": [1], "cap": None,
+                      "ineq": [{"coef": [1, 1], "budget": 3, "signed": True}]}, "ngen": 3, "pop_size": 6, "seed": 26},
+            # multi-objective real front with several members whose signed constraint values differ row by row
+            {"kind": "ga", "algo": "NSGA2RealGeneticAlgorithm", "vkind": "real",
+             "prob": {"lower": [0, 0, 0], "upper": [2, 2, 2], "C": [[1, 1, 0], [-1, -1, 1]], "obj_wt": [1, 1], "cap": None,
+                      "ineq": [{"coef": [1, 2, -1], "budget": 5, "signed": True}, {"coef": [-1, 0, 1], "budget": 2, "signed": True}]},
+             "ngen": 4, "pop_size": 10, "seed": 27},
+            {"kind": "ga", "algo": "NSGA2IntegerGeneticAlgorithm", "vkind": "integer",
+             "prob": {"lower": [-4, -4], "upper": [3, 3], "C": [[1, 1], [-1, -1]], "obj_wt": [1, 1], "cap": None,
+                      "ineq": [{"coef": [1, -1], "budget": 2, "signed": True}]}, "ngen": 3, "pop_size": 8, "seed": 28},
+            # as many equality as inequality constraints (arrays of equal shape), equality met by every subset
+            {"kind": "ga", "algo": "NSGA2SteepestDescentSubsetGeneticAlgorithm", "ngen": 2, "pop_size": 6, "seed": 40, "phc": 0.5,
+             "prob": dict(mo, ineq=[{"cost": [1, 2, 3, 1, 2, 3], "budget": 9, "signed": True}], ineq_wt=[1],
+                          eq=[{"vec": [1, 1, 1, 1, 1, 1], "target": 3}], eq_wt=[1])},
+            {"kind": "ga", "algo": "NSGA2MutatorBSubsetGeneticAlgorithm", "ngen": 2, "pop_size": 6, "seed": 41, "phc": 0.5, "nhcstep": 2,
+             "prob": dict(mo, ineq=[{"cost": [1, 2, 3, 1, 2, 3], "budget": 9, "signed": True}], ineq_wt=[2],
+                          eq=[{"vec": [1, 1, 1, 1, 1, 1], "target": 3, "signed": True}], eq_wt=[1])},
+            {"kind": "ga", "algo": "SubsetGeneticAlgorithm", "ngen": 2, "pop_size": 6, "seed": 42,
+             "prob": dict(sep, ineq=[{"cost": [1, 2, 3, 1, 2, 3], "budget": 9, "signed": True}], ineq_wt=[1],
+                          eq=[{"vec": [1, 1, 1, 1, 1, 1], "target": 3}], eq_wt=[1])},
+            # legacy RandomState generator and the optional miscout dictionary
+            {"kind": "ga", "algo": "SubsetGeneticAlgorithm", "prob": sep, "ngen": 2, "pop_size": 4, "seed": 29, "rngkind": "RandomState", "miscout": True},
+            {"kind": "ga", "algo": "NSGA2RealGeneticAlgorithm", "vkind": "real", "rngkind": "RandomState", "miscout": True,
+             "prob": {"lower": [0, 0], "upper": [1, 1], "C": [[1, 0], [-1, 1]], "obj_wt": [1, 1], "cap": None}, "ngen": 2, "pop_size": 4, "seed": 30},
+            {"kind": "hillclimb", "prob": con, "gen": "real", "seed": 31, "rngkind": "RandomState", "miscout": True},
+            # a large common offset (subset scores ~1e5 and ~4e9, single-exchange improvements of 1 and 0.5) and a tiny
+            # scale (whole objective range below 1e-8): exact comparison decides, not a tolerance
+            {"kind": "hillclimb", "gen": "scripted", "init": [11, 25, 3, 17], "dup": [11, 11, 3, 17],
+             "prob": {"space": [11, 25, 3, 17, 7, 4, 30, 8, 19, 2, 40, 21], "k": 4, "mean": False, "obj_wt": [1],
+                      "lin": [[25002], [25009], [25001], [25003], [25000], [25007], [25004], [25011], [25005], [25006], [25008], [25010]]}},
+            {"kind": "hillclimb", "gen": "scripted", "init": [5, 9, 1], "dup": [5, 5, 1],
+             "prob": {"space": [5, 9, 1, 7, 3, 8], "k": 3, "mean": False, "obj_wt": [1],
+                      "lin": [["2000000011/2"], ["2000000007/2"], [1000000009], ["2000000001/2"], [1000000000], ["2000000003/2"]]}},
+            {"kind": "hillclimb", "gen": "scripted", "init": [5, 9, 1], "dup": [5, 5, 1],
+             "prob": {"space": [5, 9, 1, 7, 3, 8], "k": 3, "mean": False, "obj_wt": [1],
+                      "lin": [["5/1073741824"], ["3/1073741824"], ["7/1073741824"], ["-2/1073741824"], ["1/1073741824"], ["-4/1073741824"]]}},
+            {"kind": "sorting_hillclimb",
+             "prob": {"space": [11, 4, 25, 8, 30], "k": 2, "mean": False, "obj_wt": [1], "lin": [[25001], [25002], [25003], [25004], [25009]],
+                      "quad": [[0, 9, 0, 0, 0], [9, 0, 0, 0, 0], [0, 0, 0, 0, 0], [0, 0, 0, 0, 0], [0, 0, 0, 0, 0]]}},
+            {"kind": "sorting", "prob": {"space": [5, 9, 1, 7, 3, 8], "k": 3, "mean": False, "obj_wt": [1],
+                                         "lin": [["2000000011/2"], ["2000000007/2"], [1000000009], ["2000000001/2"], [1000000000], ["2000000003/2"]]}},
+            {"kind": "sorting", "prob": {"space": [5, 9, 1, 7, 3, 8], "k": 2, "mean": False, "obj_wt": [-1],
+                                         "lin": [["5/1073741824"], ["3/1073741824"], ["7/1073741824"], ["-2/1073741824"], ["1/1073741824"], ["-4/1073741824"]]}},
+            {"kind": "ga", "algo": "SubsetGeneticAlgorithm", "ngen": 3, "pop_size": 6, "seed": 32,
+             "prob": {"space": [5, 9, 1, 7, 3, 8], "k": 2, "mean": False, "obj_wt": [1],
+                      "lin": [["5/1073741824"], ["3/1073741824"], ["7/1073741824"], ["-2/1073741824"], ["1/1073741824"], ["-4/1073741824"]]}},
+            # histories: ONE algorithm object per class, one problem object whose public attributes the user re-assigns
+            # between runs (weights, candidate set, bounds), or a series of problem objects (the earlier ones released)
+            {"kind": "history", "prob": sep, "seed": 1, "steps": [
+                {"op": "min", "algo": "sorting"}, {"op": "set_wt", "obj_wt": [-1]}, {"op": "min", "algo": "sorting"},
+                {"op": "min", "algo": "hillclimb", "seed": 5}, {"op": "poke"}, {"op": "set_wt", "obj_wt": [1]},
+                {"op": "min", "algo": "hillclimb", "seed": 5}, {"op": "min", "algo": "sorting_hillclimb"},
+                {"op": "set_space", "keep": [5, 0, 2, 4]}, {"op": "min", "algo": "sorting"}, {"op": "min", "algo": "hillclimb", "seed": 5},
+                {"op": "min", "algo": "sorting_hillclimb"}]},
+            {"kind": "history", "prob": con, "seed": 2, "steps": [
+                {"op": "min", "algo": "hillclimb", "seed": 7}, {"op": "min", "algo": "hillclimb", "seed": 7},
+                {"op": "min", "algo": "SubsetGeneticAlgorithm", "seed": 8, "ngen": 2, "pop_size": 6}, {"op": "set_wt", "obj_wt": [-2]},
+                {"op": "set_cwt", "ineq_wt": [3]},
+                {"op": "min", "algo": "SubsetGeneticAlgorithm", "seed": 8, "ngen": 2, "pop_size": 6}, {"op": "min", "algo": "sorting_hillclimb"}]},
+            {"kind": "history", "prob": mo, "seed": 3, "steps": [
+                {"op": "min", "algo": "NSGA2SubsetGeneticAlgorithm", "seed": 9, "ngen": 2, "pop_size": 6}, {"op": "poke"},
+                {"op": "set_wt", "obj_wt": [1, -1]}, {"op": "min", "algo": "NSGA2SubsetGeneticAlgorithm", "seed": 9, "ngen": 2, "pop_size": 6}]},
+            {"kind": "history", "prob": sep, "seed": 4, "steps": [st for i_ in range(7) for st in (
+                {"op": "new_prob", "prob": {"space": [10, 13, 11, 17, 12, 19], "k": 3, "mean": False, "obj_wt": [1],
+                                            "lin": [[(3 * i_ + 5 * j_ * j_) % 11] for j_ in range(6)]}},
+                {"op": "min", "algo": "sorting"}, {"op": "min", "algo": "sorting_hillclimb"})]},
+            {"kind": "history", "vkind": "real", "seed": 5,
+             "prob": {"lower": [0, 0], "upper": [10, 10], "C": [[-1, -2]], "obj_wt": [1], "cap": None}, "steps": [
+                {"op": "min", "algo": "RealGeneticAlgorithm", "seed": 1, "ngen": 3, "pop_size": 6},
+                {"op": "set_bounds", "lower": [1, 1], "upper": [4, 4]},
+                {"op": "min", "algo": "RealGeneticAlgorithm", "seed": 1, "ngen": 3, "pop_size": 6}]},
+            {"kind": "history", "vkind": "real", "seed": 6,
+             "prob": {"lower": [0, 0], "upper": [10, 10], "C": [[-1, -2], [1, 0]], "obj_wt": [1, 1], "cap": None}, "steps": [
+                {"op": "set_bounds", "lower": [1, 1], "upper": [4, 4]},
+                {"op": "min", "algo": "NSGA2RealGeneticAlgorithm", "seed": 2, "ngen": 3, "pop_size": 8}]},
+            {"kind": "history", "vkind": "integer", "seed": 7,
+             "prob": {"lower": [-5, -5], "upper": [5, 5], "C": [[1, 1]], "obj_wt": [1], "cap": None}, "steps": [
+                {"op": "set_bounds", "lower": [-2, -1], "upper": [3, 2]},
+                {"op": "min", "algo": "IntegerGeneticAlgorithm", "seed": 3, "ngen": 3, "pop_size": 6},
+                {"op": "set_wt", "obj_wt": [-1]}, {"op": "min", "algo": "IntegerGeneticAlgorithm", "seed": 3, "ngen": 3, "pop_size": 6}]},
+            # optional bounds left out (None): every subset optimiser family
+            {"kind": "ga", "algo": "SubsetGeneticAlgorithm", "prob": dict(sep, bounds="none"), "ngen": 2, "pop_size": 4, "seed": 35},
+            {"kind": "ga", "algo": "NSGA2SubsetGeneticAlgorithm", "prob": dict(mo, bounds="no_upper"), "ngen": 2, "pop_size": 6, "seed": 36},
+            {"kind": "ga", "algo": "NSGA3SubsetGeneticAlgorithm", "prob": dict(mo, bounds="no_lower"), "ngen": 2, "pop_size": 6, "seed": 37, "nrefpts": 4},
+            {"kind": "ga", "algo": "NSGA2MutatorASubsetGeneticAlgorithm", "prob": dict(mo, bounds="none"), "ngen": 2, "pop_size": 4, "seed": 38, "phc": 1.0, "nhcstep": 2},
+            {"kind": "hillclimb", "prob": dict(con, bounds="none"), "gen": "real", "seed": 39},
+            {"kind": "hillclimb", "prob": dict(con, space_form="readonly"), "gen": "real", "seed": 43},
+            {"kind": "sorting_hillclimb", "prob": dict(con, space_form="strided")},
+            {"kind": "sorting", "prob": dict(sep, space_form="int8")},
+            {"kind": "ga", "algo": "SubsetGeneticAlgorithm", "prob": dict(sep, space_form="readonly"), "ngen": 2, "pop_size": 4, "seed": 44},
+            {"kind": "ga", "algo": "NSGA2SubsetGeneticAlgorithm", "prob": dict(mo, space_form="int32"), "ngen": 2, "pop_size": 6, "seed": 45},
+            {"kind": "sorting", "prob": dict(sep, bounds="none")},
+            # order-dependent objective: the climb meets the set {-6, 50, -3} in two arrangements
+            {"kind": "hillclimb", "gen": "scripted", "init": [-6, 58, 50], "dup": [-6, 58, -6],
+             "prob": {"space": [58, -6, 50, 22, -3], "k": 3, "lin": [[6], [-2], [3], [8], [-6]], "mean": False, "obj_wt": [2], "posw": [1, 0, 2]}},
+            # a long climb: 6 exchanges with a 2-member subset, each the only improving one (iteration caps)
+            {"kind": "hillclimb", "gen": "scripted", "init": [-4, 20], "dup": [-4, -4], "prob": stair},
+            {"kind": "sorting_hillclimb", "prob": stair},
+            # the older copy of the exchange climber (UnconstrainedSteepestAscentSetHillClimber, maximising)
+            {"kind": "old_hillclimb", "prob": dict(con, ineq=[], ineq_wt=[]), "seed": 4},
+            {"kind": "old_hillclimb", "prob": mo, "seed": 5},
+            # D41: signed constraint functions, the hill climbers add the raw values Σ g + Σ h into their violation key
+            {"kind": "hillclimb", "gen": "scripted", "init": [12, 15], "dup": [12, 12],
+             "prob": {"space": [10, 11, 12, 13, 14, 15], "k": 2, "mean": False, "obj_wt": [1], "lin": [[-4], [-3], [-2], [-5], [4], [-3]],
+                      "ineq": [{"cost": [4, 3, 0, 3, 3, 0], "budget": 4, "signed": True}, {"cost": [0, 1, 0, 2, 2, 3], "budget": 3, "signed": True}],
+                      "ineq_wt": [1, 1]}},
+            # D42: Problem._evaluate, vectorised branch (elementwise = False): `self.evalfn(v *args, **kwargs)`
+            {"kind": "ga", "algo": "SubsetGeneticAlgorithm", "prob": dict(sep, elementwise=False), "ngen": 2, "pop_size": 4, "seed": 33},
+            {"kind": "ga", "algo": "SubsetGeneticAlgorithm", "prob": dict(sep, k=1, elementwise=False), "ngen": 2, "pop_size": 4, "seed": 34},
             {"kind": "op_crossover", "a": [1, 2, 3, 4], "b": [3, 5, 1, 6], "nex": 1, "mex": [1]},
             {"kind": "op_crossover", "a": [1, 2, 3, 4], "b": [8, 5, 7, 6], "nex": 3, "mex": [2, 0, 2]},
             {"kind": "op_crossover", "a": [1, 2, 3], "b": [3, 1, 2], "nex": None, "mex": []},
@@ -541,69 +876,191 @@ class C06(Prop):
             {"kind": "op_round", "which": "sbx", "lower": [-1, 0], "upper": [3, 4], "stub": [[["5/2", "1/2"]], [["-1/2", "7/2"]]], "X": [[[0, 1]], [[2, 3]]]},
         ]
 
+    # relative frequencies of the optimiser classes among the `ga` cases (the memetic variants cost 0.2-0.3 s a run)
+    GA_WEIGHTS = [("SubsetGeneticAlgorithm", 6), ("NSGA2SubsetGeneticAlgorithm", 6), ("NSGA3SubsetGeneticAlgorithm", 4),
+                  ("NSGA2SteepestDescentSubsetGeneticAlgorithm", 3), ("NSGA2StochasticDescentSubsetGeneticAlgorithm", 2),
+                  ("NSGA2MutatorASubsetGeneticAlgorithm", 3), ("NSGA2MutatorBSubsetGeneticAlgorithm", 3),
+                  ("RealGeneticAlgorithm", 6), ("NSGA2RealGeneticAlgorithm", 9), ("IntegerGeneticAlgorithm", 6),
+                  ("NSGA2IntegerGeneticAlgorithm", 6), ("BinaryGeneticAlgorithm", 4), ("NSGA2BinaryGeneticAlgorithm", 4)]
+
+    def _ga_case(self, rng):
+        names = [a for a, w in self.GA_WEIGHTS for _ in range(w)]
+        algo = rng.choice(names)
+        c = {"kind": "ga", "algo": algo, "ngen": rng.randint(1, 4), "pop_size": rng.randint(2, 10),
+             "seed": rng.randrange(10 ** 6)}
+        if rng.random() < 0.12:
+            c["rngkind"] = "RandomState"
+        if rng.random() < 0.12:
+            c["miscout"] = True
+        if algo in VECTOR:
+            kind, nobj = VECTOR[algo]
+            c["vkind"] = kind
+            c["prob"] = self._vector(rng, kind, nobj if nobj == 1 else rng.choice([2, 2, 3]))
+            if nobj > 1:
+                c["pop_size"] = rng.randint(4, 12)
+            return c
+        nobj = 1 if algo in SUBSET_SINGLE else rng.choice([2, 2, 3])
+        signed = rng.random() < 0.5
+        mag = rng.choice([None, None, None, None, "offset", "tiny"])
+        if rng.random() < 0.35:
+            # tight: candidate set only slightly larger than the subset, a few more generations
+            k_ = rng.choice([3, 3, 4, 5, 6])
+            c["prob"] = self._table(rng, n=k_ + rng.choice([1, 1, 2]), k=k_, nobj=nobj, mean=False,
+                                    cons=rng.choice(["none", "none", "none", "ineq"]), signed=signed, mag=mag)
+            c["ngen"] = rng.randint(3, 5)
+            c["pop_size"] = rng.randint(6, 10)
+        else:
+            c["prob"] = self._table(rng, n=rng.choice([2, 3, 4, 5, 6, 7, 8, 9]), nobj=nobj, mean=False,
+                                    cons=rng.choice(["none", "none", "ineq", "ineq", "eq", "both"]), signed=signed, mag=mag)
+        if rng.random() < 0.15:
+            c["prob"]["bounds"] = rng.choice(["none", "none", "no_lower", "no_upper"])     # documented Optional
+        if algo == "NSGA3SubsetGeneticAlgorithm":
+            # Das-Dennis directions exist only for C(p+nobj-1, nobj-1) points (pymoo rejects others)
+            c["nrefpts"] = rng.choice([2, 3, 4, 5, 6] if nobj == 2 else [3, 6, 10])
+        if algo in MEMETIC:
+            c["phc"] = rng.choice([0.1, 0.5, 1.0])
+            c["ngen"] = min(c["ngen"], 3)
+            c["pop_size"] = min(c["pop_size"], 8)
+            if algo != "NSGA2SteepestDescentSubsetGeneticAlgorithm":
+                c["nhcstep"] = rng.choice([None, None, 1, 2, 5])
+        return c
+
+    def _history_case(self, rng):
+        if rng.random() < 0.3:
+            return self._vector_history_case(rng)
+        multi = rng.random() < 0.2
+        nobj = rng.choice([2, 3]) if multi else 1
+
+        def table():
+            t = self._table(rng, n=rng.choice([4, 5, 6, 7]), k=rng.choice([2, 3]), nobj=nobj, mean=False,
+                            separable=rng.random() < 0.6, cons=rng.choice(["none", "none", "ineq", "eq"]),
+                            mag=rng.choice([None, None, None, "offset"]))
+            t.pop("posw", None)
+            return t
+        t = table()
+        cur = t
+        pool = ["NSGA2SubsetGeneticAlgorithm"] if multi else ["sorting", "sorting", "hillclimb", "hillclimb", "sorting_hillclimb", "SubsetGeneticAlgorithm"]
+        steps = []
+        nmin = 0
+        want = rng.choice([2, 3, 3, 4, 5])
+        while nmin < want:
+            r = rng.random()
+            if steps and r < 0.2:
+                steps.append({"op": "set_wt", "obj_wt": canon.enc([rng.choice([1, -1, 2, -2, Fraction(1, 2)]) for _ in range(nobj)])})
+            elif steps and r < 0.25 and cur.get("ineq"):
+                steps.append({"op": "set_cwt", "ineq_wt": canon.enc([rng.choice([1, 2, 3, Fraction(1, 2)]) for _ in cur["ineq"]])})
+            elif steps and r < 0.35 and len(cur["space"]) > cur["k"]:
+                n_ = len(cur["space"])
+                keep = rng.sample(range(n_), rng.randint(cur["k"], n_ - 1) if rng.random() < 0.7 else n_)
+                steps.append({"op": "set_space", "keep": keep})
+                cur = self._restrict_table(cur, keep)
+            elif steps and r < 0.5:
+                cur = table()
+                steps.append({"op": "new_prob", "prob": cur})
+            elif steps and r < 0.6:
+                steps.append({"op": "poke"})
+            else:
+                a = rng.choice(pool) if not steps or rng.random() < 0.4 else \
+                    next((st["algo"] for st in reversed(steps) if st["op"] == "min"), rng.choice(pool))
+                steps.append({"op": "min", "algo": a, "seed": rng.randrange(10 ** 6), "ngen": rng.randint(1, 3), "pop_size": rng.randint(4, 8)})
+                nmin += 1
+        return {"kind": "history", "prob": t, "seed": rng.randrange(10 ** 6), "steps": steps}
+
+    def _vector_history_case(self, rng):
+        vkind = rng.choice(["real", "real", "integer", "binary"])
+        multi = rng.random() < 0.5
+        algo = {("real", False): "RealGeneticAlgorithm", ("real", True): "NSGA2RealGeneticAlgorithm",
+                ("integer", False): "IntegerGeneticAlgorithm", ("integer", True): "NSGA2IntegerGeneticAlgorithm",
+                ("binary", False): "BinaryGeneticAlgorithm", ("binary", True): "NSGA2BinaryGeneticAlgorithm"}[(vkind, multi)]
+        t = self._vector(rng, vkind, 2 if multi else 1)
+        t["cap"] = None
+        t.pop("ineq", None)            # bounds change below: keep every box point feasible
+        steps = []
+        cur = t
+        for _ in range(rng.choice([2, 2, 3])):
+            if steps and rng.random() < 0.8 and vkind != "binary":
+                # a narrower box inside the current one (the optimum of the old box is usually outside it)
+                lo = [canon.dec(v) for v in cur["lower"]]
+                hi = [canon.dec(v) for v in cur["upper"]]
+                nl, nh = [], []
+                for l, h in zip(lo, hi):
+                    if vkind == "real":
+                        w = h - l
+                        a = l + w * Fraction(rng.randint(0, 2), 4)
+                        b = a + w * Fraction(rng.randint(1, 2), 4)
+                    else:
+                        a = l + (1 if h - l >= 2 and rng.random() < 0.7 else 0)
+                        b = h - (1 if h - a >= 1 and rng.random() < 0.7 else 0)
+                    nl.append(a)
+                    nh.append(b)
+                cur = dict(cur, lower=canon.enc(nl), upper=canon.enc(nh))
+                steps.append({"op": "set_bounds", "lower": cur["lower"], "upper": cur["upper"]})
+            elif steps and rng.random() < 0.5:
+                steps.append({"op": "set_wt", "obj_wt": canon.enc([rng.choice([1, -1, 2]) for _ in cur["obj_wt"]])})
+            steps.append({"op": "min", "algo": algo, "seed": rng.randrange(10 ** 6), "ngen": rng.randint(2, 4), "pop_size": rng.randint(4, 8)})
+        return {"kind": "history", "vkind": vkind, "prob": t, "seed": rng.randrange(10 ** 6), "steps": steps}
+
     def generate(self, rng, n, tier):
         out = []
-        ga_names = SUBSET_SINGLE + SUBSET_MULTI + list(VECTOR)
         for i in range(n):
             r = rng.random()
-            if r < 0.04:
+            if r < 0.03:
                 out.append({"kind": "sorting", "prob": self._boundary_tie(rng)})
-            elif r < 0.14:
+            elif r < 0.12:
                 big = rng.random() < 0.1
                 t = self._table(rng, n=(rng.choice([17, 20, 24]) if big else None), k=(rng.choice([1, 2, 3]) if big else None),
-                                separable=True, nobj=1, tie=rng.random() < 0.5)
+                                separable=True, nobj=1, tie=rng.random() < 0.5,
+                                mag=rng.choice([None, None, None, "offset", "offset", "tiny"]), signed=rng.random() < 0.3)
                 out.append({"kind": "sorting", "prob": t})
-            elif r < 0.34:
-                t = self._table(rng, nobj=1, tie=rng.random() < 0.3)
+            elif r < 0.14:
+                out.append(self._long_climb(rng))
+            elif r < 0.17:
+                out.append(self._position_dependent(rng))
+            elif r < 0.30:
+                # one in ten with signed constraint functions (finding D41 when the two violation keys disagree)
+                t = self._table(rng, nobj=1, tie=rng.random() < 0.3, mag=rng.choice([None, None, None, "offset", "offset", "tiny"]),
+                                signed=rng.random() < 0.1)
                 if rng.random() < 0.5:
-                    out.append({"kind": "hillclimb", "prob": t, "gen": "real", "seed": rng.randrange(10 ** 6)})
+                    c = {"kind": "hillclimb", "prob": t, "gen": "real", "seed": rng.randrange(10 ** 6)}
+                    if rng.random() < 0.15:
+                        c["rngkind"] = "RandomState"
                 else:
                     init = rng.sample(t["space"], t["k"])
                     dup = list(init)
                     if len(dup) > 1:
                         dup[rng.randrange(1, len(dup))] = dup[0]
-                    out.append({"kind": "hillclimb", "prob": t, "gen": "scripted", "init": init, "dup": dup})
-            elif r < 0.44:
-                t = self._table(rng, nobj=1, tie=rng.random() < 0.3, cons=rng.choice(["none", "none", "ineq", "eq", "both", "tight"]))
+                    c = {"kind": "hillclimb", "prob": t, "gen": "scripted", "init": init, "dup": dup}
+                if rng.random() < 0.15:
+                    c["miscout"] = True
+                out.append(c)
+            elif r < 0.39:
+                mag = rng.choice([None, None, None, "offset", "offset", "tiny"])
+                t = self._table(rng, nobj=1, tie=rng.random() < 0.3, cons=rng.choice(["none", "none", "ineq", "eq", "both", "tight"]),
+                                mag=mag, signed=rng.random() < 0.1)
                 if not t.get("quad") and rng.random() < 0.6:      # mostly non-separable: the sorted start is no optimum
                     n_ = len(t["space"])
+                    unit = Fraction(1, 2 ** 30) if mag == "tiny" else 1
                     q = [[0] * n_ for _ in range(n_)]
                     for a in range(n_):
                         for b in range(a + 1, n_):
-                            q[a][b] = q[b][a] = rng.randint(-6, 6)
-                    t["quad"] = q
+                            q[a][b] = q[b][a] = rng.randint(-6, 6) * unit
+                    t["quad"] = canon.enc(q)
                     if t["mean"] and t["k"] not in (1, 2, 4, 8):
                         t["mean"] = False
-                out.append({"kind": "sorting_hillclimb", "prob": t})
-            elif r < 0.76:
-                algo = ga_names[(i + rng.randrange(3)) % len(ga_names)]
-                c = {"kind": "ga", "algo": algo, "ngen": rng.randint(1, 4), "pop_size": rng.randint(2, 10),
-                     "seed": rng.randrange(10 ** 6)}
-                if algo in VECTOR:
-                    kind, nobj = VECTOR[algo]
-                    c["vkind"] = kind
-                    c["prob"] = self._vector(rng, kind, nobj if nobj == 1 else rng.choice([2, 3]))
-                else:
-                    nobj = 1 if algo in SUBSET_SINGLE else rng.choice([2, 2, 3])
-                    if rng.random() < 0.4:
-                        # tight: candidate set only slightly larger than the subset, a few more generations
-                        k_ = rng.choice([3, 3, 4, 5, 6])
-                        c["prob"] = self._table(rng, n=k_ + rng.choice([1, 1, 2]), k=k_, nobj=nobj, mean=False,
-                                                cons=rng.choice(["none", "none", "none", "ineq"]))
-                        c["ngen"] = rng.randint(3, 6)
-                        c["pop_size"] = rng.randint(6, 12)
-                    else:
-                        c["prob"] = self._table(rng, n=rng.choice([2, 3, 4, 5, 6, 7, 8, 9]), nobj=nobj, mean=False,
-                                                cons=rng.choice(["none", "none", "none", "ineq", "eq"]))
-                    if algo == "NSGA3SubsetGeneticAlgorithm":
-                        # Das-Dennis directions exist only for C(p+nobj-1, nobj-1) points (pymoo rejects others)
-                        c["nrefpts"] = rng.choice([2, 3, 4, 5, 6] if nobj == 2 else [3, 6, 10])
-                    if algo in MEMETIC:
-                        c["phc"] = rng.choice([0.1, 0.5, 1.0])
-                        if algo != "NSGA2SteepestDescentSubsetGeneticAlgorithm":
-                            c["nhcstep"] = rng.choice([None, None, 1, 2, 5])
+                c = {"kind": "sorting_hillclimb", "prob": t}
+                if rng.random() < 0.15:
+                    c["miscout"] = True
                 out.append(c)
-            elif r < 0.86:
+            elif r < 0.67:
+                out.append(self._ga_case(rng))
+            elif r < 0.71:
+                out.append(self._history_case(rng))
+            elif r < 0.74:
+                t = self._table(rng, nobj=rng.choice([1, 1, 2]), cons="none", mean=False,
+                                mag=rng.choice([None, None, "offset", "tiny"]))
+                t.pop("posw", None)
+                out.append({"kind": "old_hillclimb", "prob": t, "seed": rng.randrange(10 ** 6)})
+            elif r < 0.85:
                 n_ = rng.randint(1, 7)
                 pool = rng.sample(range(1, 30), 2 * n_)
                 a = pool[:n_]
@@ -614,22 +1071,22 @@ class C06(Prop):
                 nex = None if clen < 2 else rng.randint(1, clen - 1)
                 mex = [rng.randrange(clen) for _ in range(nex or 0)]
                 out.append({"kind": "op_crossover", "a": a, "b": b, "nex": nex, "mex": mex})
-            elif r < 0.89:
+            elif r < 0.88:
                 space = rng.sample(range(1, 30), rng.randint(1, 8))
                 x = rng.sample(space, rng.randint(1, len(space)))
                 out.append({"kind": "op_mutation", "space": space, "x": x, "u": [], "choice": []})
-            elif r < 0.92:
+            elif r < 0.91:
                 space = rng.sample(range(1, 30), rng.randint(1, 8))
                 k = rng.randint(1, len(space))
                 out.append({"kind": "op_sampling", "space": space, "k": k,
                             "rows": [rng.sample(space, k) for _ in range(rng.randint(1, 3))]})
-            elif r < 0.95:
+            elif r < 0.94:
                 space = rng.sample(range(1, 30), rng.randint(1, 8))
                 x = rng.sample(space, rng.randint(1, len(space)))
                 out.append({"kind": "op_neighbors", "space": space, "x": x, "locus": rng.randrange(len(x))})
             else:
                 nv, nm = rng.randint(1, 4), rng.randint(1, 3)
-                lo = [rng.randint(-3, 3) for _ in range(nv)]
+                lo = [rng.randint(-9, 3) for _ in range(nv)]
                 hi = [l + rng.randint(0, 5) for l in lo]
                 which = rng.choice(["sbx", "pm"])
 
@@ -677,30 +1134,45 @@ class C06(Prop):
         return out
 
     # ------------------------------------------------------------------ implementation
-    IMPL_TIMEOUT_S = 6.0
+    IMPL_TIMEOUT_S = 3.0      # nominal; the CPU-time budget per case is 4 x this (legitimate cases need < 0.5 s)
     TIMEOUTS = 0
     MUTANT_ACTIVE = False      # set while a self-test mutant is installed (only used to fail fast on hangs)
+    MUTANT_SCOPE = None        # predicate on the case tag: which cases can reach the code the mutant patches
+    BASELINE = {}
 
     def run_impl(self, case):
-        """one case on the real code, under a wall-clock guard: an optimiser that does not come back
-        (possible for a broken acceptance rule) is reported as `implementation raised: TimeoutError`"""
-        import signal
-
-        def on_alarm(signum, frame):
-            C06.TIMEOUTS += 1
-            raise TimeoutError(f"optimiser still running after {self.IMPL_TIMEOUT_S} s")
-        if self.MUTANT_ACTIVE and C06.TIMEOUTS >= 3 and case["kind"] in ("hillclimb", "sorting_hillclimb"):
+        """one case on the real code, under a CPU-time guard (no wall-clock verdicts: machine load must not turn a
+        correct optimiser into a timeout): an optimiser that does not come back (possible for a broken acceptance
+        rule) is reported as `implementation raised: TimeoutError`"""
+        import json as _json
+        key = _json.dumps(case, sort_keys=True, default=str)
+        if C06.MUTANT_ACTIVE and C06.MUTANT_SCOPE is not None and not C06.MUTANT_SCOPE(self._tag(case)) and key in C06.BASELINE:
+            # self-test only: the installed mutant patches code this case never reaches; re-use the
+            # observation made on the unmutated code a moment ago (saves ~80 % of the self-test time)
+            return C06.BASELINE[key]
+        if self.MUTANT_ACTIVE and C06.TIMEOUTS >= 3 and case["kind"] in ("hillclimb", "sorting_hillclimb", "old_hillclimb", "history"):
             # self-test only: the installed mutant has already hung three times, do not wait for every case
             raise TimeoutError("optimiser does not terminate under this mutant (repeated timeouts)")
         from harness.core import cpu_deadline
         try:
-            # CPU-time budget (4 x the nominal wall figure) with a wall backstop: load on the machine must not
-            # turn a correct optimiser into a timeout
+            # CPU-time budget (4 x the nominal figure) with a wall backstop
             with cpu_deadline(self.IMPL_TIMEOUT_S * 4, wall_factor=30, what="optimiser"):
-                return self._run_impl(case)
+                obs = self._run_impl(case)
         except TimeoutError:
             C06.TIMEOUTS += 1
             raise
+        if not C06.MUTANT_ACTIVE:
+            # the most recent observations of the unmutated code (the self-test evaluates its base right before
+            # it installs the mutants)
+            C06.BASELINE[key] = obs
+            if len(C06.BASELINE) > 4000:
+                for old_key in list(C06.BASELINE)[:1000]:
+                    del C06.BASELINE[old_key]
+        return obs
+
+    @staticmethod
+    def _tag(case):
+        return "ga:" + case["algo"] if case["kind"] == "ga" else case["kind"]
 
     def _run_impl(self, case):
         m = _mods()
@@ -718,16 +1190,19 @@ class C06(Prop):
             else:
                 space = numpy.array(case["prob"]["space"], dtype=int)
                 if case["gen"] == "real":
-                    gen = numpy.random.default_rng(case["seed"])
+                    # Generator or (rarely used) legacy RandomState: both are accepted by the constructor
+                    mk = numpy.random.RandomState if case.get("rngkind") == "RandomState" else numpy.random.default_rng
+                    gen = mk(case["seed"])
                     # the start subset the algorithm will draw, replayed on a clone of the generator
-                    clone = numpy.random.default_rng(case["seed"])
+                    clone = mk(case["seed"])
                     extra["init"] = _ints(clone.choice(space, int(case["prob"]["k"]), replace=False))
                 else:
                     gen = m["ScriptedGenerator"](case["init"], case["dup"])
                 algo = m["algmods"]["SteepestDescentSubsetHillClimber"].SteepestDescentSubsetHillClimber(rng=gen)
             if kind == "sorting_hillclimb":
                 prob.log = []
-            soln = algo.minimize(prob)
+            miscout = {} if case.get("miscout") else None
+            soln = algo.minimize(prob, miscout=miscout) if miscout is not None else algo.minimize(prob)
             if kind == "sorting_hillclimb":
                 # evaluations: n singletons, then the sorted prefix the hill climb starts from
                 n_ = len(case["prob"]["space"])
@@ -741,6 +1216,10 @@ class C06(Prop):
                 obs["init"] = list(case["init"]) if gen.calls and not gen.calls[0]["replace"] else list(case["dup"])
             obs["problem_untouched"] = (_snapshot(prob) == snap)
             return obs
+        if kind == "history":
+            return self._run_history(m, case)
+        if kind == "old_hillclimb":
+            return self._run_old_hillclimb(m, case)
         if kind == "ga":
             return self._run_ga(m, case)
         if kind == "op_crossover":
@@ -832,7 +1311,8 @@ class C06(Prop):
         # since 330f7cee every GA class draws pymoo's seed from its own generator: one seeded Generator per
         # case makes the pymoo side reproducible; the operators of pymoo_addon still use the global numpy
         # stream, which is seeded below and recorded through the proxy module
-        kw["rng"] = numpy.random.default_rng(int(case["seed"]))
+        kw["rng"] = (numpy.random.RandomState(int(case["seed"]) % (2 ** 32)) if case.get("rngkind") == "RandomState"
+                     else numpy.random.default_rng(int(case["seed"])))
         algo = cls(**kw)
         snap = _snapshot(prob)
         rec = {"res_none": None, "seed_passed": None}
@@ -842,6 +1322,19 @@ class C06(Prop):
             rec["seed_passed"] = k.get("seed")
             res = real_min(*a, **k)
             rec["res_none"] = res.X is None
+            if res.X is not None:
+                # what pymoo hands back (one row per member of res.opt), copied before the algorithm class reads it
+                def rows(v, n_):
+                    if v is None:
+                        return [[] for _ in range(n_)]
+                    v = numpy.array(v, copy=True)
+                    v = v.reshape(1, -1) if v.ndim == 1 else v
+                    return [[int(e) for e in r] for r in v] if v.dtype == bool or numpy.issubdtype(v.dtype, numpy.integer) else canon.enc(v)
+                try:
+                    X = rows(res.X, 1)
+                    rec["res"] = {"X": X, "F": rows(res.F, len(X)), "G": rows(res.G, len(X)), "H": rows(res.H, len(X))}
+                except Exception as e:
+                    rec.setdefault("recorder_errors", []).append(f"res: {type(e).__name__}: {e}"[:200])
             return res
         state = numpy.random.get_state()
         numpy.random.seed(int(case["seed"]) % (2 ** 32))
@@ -851,7 +1344,7 @@ class C06(Prop):
             with _patched(mod, "minimize", min_wrapper), _recording(addon, rec), \
                     contextlib.redirect_stdout(io.StringIO()):
                 try:
-                    soln = algo.minimize(prob)
+                    soln = algo.minimize(prob, miscout={}) if case.get("miscout") else algo.minimize(prob)
                 except TimeoutError:
                     raise
                 except Exception as e:      # classified by the judge (never silently accepted)
@@ -860,7 +1353,7 @@ class C06(Prop):
                               "where": [l.strip() for l in traceback.format_exc().strip().splitlines()[-4:-1]]}
         finally:
             numpy.random.set_state(state)
-        obs = {"vkind": vkind, "raised": raised, "res_none": rec["res_none"], "seed_passed": rec["seed_passed"],
+        obs = {"vkind": vkind, "raised": raised, "res_none": rec["res_none"], "seed_passed": rec["seed_passed"], "res": rec.get("res"),
                "problem_untouched": (_snapshot(prob) == snap),
                "recorder_errors": rec.get("recorder_errors", []),
                "calls": {k: rec.get(k, []) for k in ("sampling", "crossover", "mutation", "neighbors", "mutator", "stochastic")}}
@@ -868,17 +1361,172 @@ class C06(Prop):
             obs.update(_solution_obs(prob, soln, vkind))
         return obs
 
+    # ------------------------------------------------------------------ histories on ONE problem object
+    @staticmethod
+    def _restrict_table(t, keep):
+        """the table problem on the candidates at positions `keep` (in that order)"""
+        q = dict(t)
+        q["space"] = [t["space"][i] for i in keep]
+        q["lin"] = [t["lin"][i] for i in keep]
+        if t.get("quad"):
+            q["quad"] = [[t["quad"][i][j] for j in keep] for i in keep]
+        for key, f in (("ineq", "cost"), ("eq", "vec")):
+            if t.get(key):
+                q[key] = [dict(c, **{f: [c[f][i] for i in keep]}) for c in t[key]]
+        return q
+
+    def _run_history(self, m, case):
+        """several steps with ONE algorithm object per optimiser class (re-used across steps) on one problem object
+        (or a series of them):
+           {"op": "min", "algo": ...}          run minimize, observe the Solution at return
+           {"op": "set_wt", "obj_wt": []}      the user re-assigns prob.obj_wt (public setter) between two runs
+           {"op": "set_cwt", "ineq_wt": []}    ... prob.ineqcv_wt
+           {"op": "set_space", "keep": []}     ... prob.decn_space: fewer candidates, other order (subset problems)
+           {"op": "set_bounds", "lower", "upper"}  ... prob.decn_space_lower / _upper / decn_space (vector problems)
+           {"op": "new_prob", "prob": {}}      the problem object is released and another one is built
+           {"op": "poke"}                      the user reverses the rows of the last Solution in place (two-object
+                                               aliasing: this must not reach the problem or later results)
+        every Solution is judged against the state of the problem at the moment of its return; at the end every
+        (un-poked) earlier Solution is observed again and re-evaluated by a problem object built afresh for that state"""
+        import gc
+        vkind = case.get("vkind", "subset")
+
+        def build(t):
+            return m["TableSubsetProblem"](t) if vkind == "subset" else m["make_vector_problem"](vkind, t)
+        cur = dict(case["prob"])
+        prob = build(cur)
+        algos = {}
+        steps_obs = []
+        solns = []
+        state = numpy.random.get_state()
+        numpy.random.seed(int(case.get("seed", 0)) % (2 ** 32))
+        try:
+            for st in case["steps"]:
+                snap = _snapshot(prob)
+                op = st["op"]
+                if op == "set_wt":
+                    cur = dict(cur, obj_wt=list(st["obj_wt"]))
+                    prob.obj_wt = numpy.array([_f(v) for v in st["obj_wt"]])
+                elif op == "set_cwt":
+                    cur = dict(cur, ineq_wt=list(st["ineq_wt"]))
+                    prob.ineqcv_wt = numpy.array([_f(v) for v in st["ineq_wt"]])
+                elif op == "set_space":
+                    cur = self._restrict_table(cur, st["keep"])
+                    prob.decn_space = numpy.array(cur["space"], dtype=int)
+                elif op == "set_bounds":
+                    cur = dict(cur, lower=list(st["lower"]), upper=list(st["upper"]))
+                    dt = float if vkind == "real" else int
+                    lo = numpy.array([_f(v) for v in st["lower"]]).astype(dt)
+                    hi = numpy.array([_f(v) for v in st["upper"]]).astype(dt)
+                    prob.decn_space_lower = lo
+                    prob.decn_space_upper = hi
+                    prob.decn_space = numpy.stack([lo, hi])
+                elif op == "new_prob":
+                    cur = dict(st["prob"])
+                    prob = None
+                    snap = None
+                    gc.collect()
+                    prob = build(cur)
+                elif op == "poke":
+                    if solns and solns[-1][0] is not None:
+                        sol = solns[-1][0]
+                        sol.soln_decn[...] = sol.soln_decn[:, ::-1].copy()
+                        solns[-1][2] = True
+                if op != "min":
+                    o = {"op": op}
+                    if op == "poke":
+                        o["problem_untouched"] = _snapshot(prob) == snap
+                    steps_obs.append(o)
+                    continue
+                name = st["algo"]
+                if name not in algos:
+                    seed = int(st.get("seed", 0))
+                    if name == "sorting":
+                        algos[name] = m["algmods"]["SortingSubsetOptimizationAlgorithm"].SortingSubsetOptimizationAlgorithm()
+                    elif name == "hillclimb":
+                        algos[name] = m["algmods"]["SteepestDescentSubsetHillClimber"].SteepestDescentSubsetHillClimber(
+                            rng=numpy.random.default_rng(seed))
+                    elif name == "sorting_hillclimb":
+                        algos[name] = m["algmods"]["SortingSteepestDescentSubsetHillClimber"].SortingSteepestDescentSubsetHillClimber(
+                            rng=numpy.random.default_rng(seed))
+                    else:
+                        algos[name] = getattr(m["algmods"][name], name)(
+                            ngen=int(st.get("ngen", 2)), pop_size=int(st.get("pop_size", 6)), rng=numpy.random.default_rng(seed))
+                raised = None
+                soln = None
+                mod = m["algmods"].get(name)
+                rec = {}
+                try:
+                    if mod is not None and hasattr(mod, "minimize"):
+                        real_min = mod.minimize
+
+                        def min_wrapper(*a, _r=real_min, **k):
+                            res = _r(*a, **k)
+                            rec["res_none"] = res.X is None
+                            return res
+                        with _patched(mod, "minimize", min_wrapper), contextlib.redirect_stdout(io.StringIO()):
+                            soln = algos[name].minimize(prob)
+                    else:
+                        soln = algos[name].minimize(prob)
+                except TimeoutError:
+                    raise
+                except Exception as e:
+                    raised = {"type": type(e).__name__, "text": str(e)[:200]}
+                o = {"op": "min", "algo": name, "raised": raised, "res_none": rec.get("res_none"), "state": cur,
+                     "problem_untouched": _snapshot(prob) == snap}
+                if soln is not None:
+                    o.update(_solution_obs(prob, soln, vkind))
+                steps_obs.append(o)
+                solns.append([soln, cur, False, len(steps_obs) - 1])
+        finally:
+            numpy.random.set_state(state)
+        # end of the history: every earlier Solution once more, against a problem object built afresh
+        end = []
+        for soln, st_cur, poked, at in solns:
+            if soln is None or poked:
+                end.append(None)
+                continue
+            e = _solution_obs(build(st_cur), soln, vkind)
+            e["at"] = at
+            e["state"] = st_cur
+            e["algo"] = steps_obs[at]["algo"]
+            end.append(e)
+        return {"steps": steps_obs, "end": end}
+
+    def _run_old_hillclimb(self, m, case):
+        """UnconstrainedSteepestAscentSetHillClimber.optimize(objfn, k, sspace, objfn_wt): the older copy of the
+        exchange-neighbourhood climber (maximises the weighted score)"""
+        import importlib
+        mod = importlib.import_module("pybrops.opt.algo.UnconstrainedSteepestAscentSetHillClimber")
+        t = case["prob"]
+        prob = m["TableSubsetProblem"](dict(t, obj_wt=[1] * len(t["obj_wt"])))
+        wt = numpy.array([_f(v) for v in t["obj_wt"]])
+        sspace = numpy.array(t["space"], dtype=int)
+        s0 = sspace.copy()
+        clone = numpy.random.default_rng(case["seed"])
+        init = _ints(clone.choice(sspace, (int(t["k"]),), replace=False))
+
+        def objfn(x):
+            return prob.evalfn(x)[0]
+        algo = mod.UnconstrainedSteepestAscentSetHillClimber(rng=numpy.random.default_rng(case["seed"]))
+        score, soln, misc = algo.optimize(objfn, int(t["k"]), sspace, wt)
+        fresh = objfn(numpy.array(soln, copy=True))
+        return {"decn": _ints(soln), "score": canon.enc(numpy.asarray(score, dtype=float)), "fresh": canon.enc(fresh),
+                "weval": canon.enc(float(misc["objfn_weval"])), "init": init,
+                "dtype_int": bool(numpy.issubdtype(numpy.asarray(soln).dtype, numpy.integer)),
+                "space_untouched": bool((sspace == s0).all())}
+
     # ------------------------------------------------------------------ model requests
     @staticmethod
-    def _spec_req(case, obs, kind, single):
-        p = case["prob"]
+    def _spec_req(case, obs, kind, single, p=None):
+        p = p if p is not None else case["prob"]
         r = {"op": "c06.spec_solution", "kind": kind, "nsoln": obs["nsoln"], "single": single, "dtype": obs["dtype"],
              "decn": obs["decn"], "obj": obs["obj"], "ineqcv": obs["ineqcv"], "eqcv": obs["eqcv"],
              "fresh": [{"obj": f["obj"], "ineqcv": f["ineqcv"], "eqcv": f["eqcv"]} for f in obs["fresh"]]}
         if kind == "subset":
             r.update(k=p["k"], nobj=len(p["obj_wt"]), nineq=len(p.get("ineq", [])), neq=len(p.get("eq", [])), space=p["space"])
         else:
-            r.update(k=len(p["lower"]), nobj=len(p["C"]), nineq=(1 if p.get("cap") is not None else 0), neq=0,
+            r.update(k=len(p["lower"]), nobj=len(p["C"]), nineq=(1 if p.get("cap") is not None else 0) + len(p.get("ineq", [])), neq=0,
                      lower=p["lower"], upper=p["upper"])
         return r
 
@@ -893,7 +1541,35 @@ class C06(Prop):
         except Exception:
             return False
 
+    VERDICTS = {}
+
+    def _out_of_scope(self, case):
+        """self-test only: a mutant is installed and this case cannot reach the code it patches"""
+        if not (C06.MUTANT_ACTIVE and C06.MUTANT_SCOPE is not None) or C06.MUTANT_SCOPE(self._tag(case)):
+            return None
+        import json as _json
+        key = _json.dumps(case, sort_keys=True, default=str)
+        return key if key in C06.VERDICTS else None
+
     def requests(self, case, obs):
+        if self._out_of_scope(case) is not None:
+            return []                      # the verdict on the unmutated code is re-used (see judge)
+        return self._requests(case, obs)
+
+    def judge(self, case, obs, answers):
+        key = self._out_of_scope(case)
+        if key is not None:
+            return dict(C06.VERDICTS[key])
+        v = self._judge(case, obs, answers)
+        if not C06.MUTANT_ACTIVE:
+            import json as _json
+            C06.VERDICTS[_json.dumps(case, sort_keys=True, default=str)] = dict(v)
+            if len(C06.VERDICTS) > 4000:
+                for old_key in list(C06.VERDICTS)[:1000]:
+                    del C06.VERDICTS[old_key]
+        return v
+
+    def _requests(self, case, obs):
         kind = case["kind"]
         if kind in ("sorting", "hillclimb", "sorting_hillclimb"):
             if not self._wellformed(obs):
@@ -918,6 +1594,8 @@ class C06(Prop):
             if obs.get("raised") is None and self._wellformed(obs):
                 single = (case["algo"] in SUBSET_SINGLE) or (case["algo"] in VECTOR and VECTOR[case["algo"]][1] == 1)
                 reqs.append(self._spec_req(case, obs, obs["vkind"], single))
+                if obs.get("res") and _finite(obs["res"]):
+                    reqs.append(dict(obs["res"], op="c06.assemble", _t="assemble"))
             calls = obs["calls"]
             for c in calls["sampling"]:
                 pos = [c["space"].index(v) if v in c["space"] else len(c["space"]) for v in c["row"]]
@@ -936,6 +1614,31 @@ class C06(Prop):
             for c in calls["stochastic"]:
                 reqs.append({"op": "c06.spec_population", "space": c["space"], "k": len(c["x"]), "rows": [c["out"]], "_t": "stochastic"})
             return reqs
+        if kind == "history":
+            reqs = []
+            vkind = case.get("vkind", "subset")
+            for o in obs["steps"] + [e for e in obs["end"] if e is not None]:
+                if o.get("op", "min") != "min" or o.get("raised") is not None or "decn" not in o or not self._wellformed(o):
+                    continue
+                p = o["state"]
+                multi = (o["algo"] in SUBSET_MULTI) or (o["algo"] in VECTOR and VECTOR[o["algo"]][1] > 1)
+                reqs.append(dict(self._spec_req(case, o, vkind, not multi, p), _t="spec"))
+                if "at" in o or vkind != "subset":
+                    continue
+                if o["algo"] in ("hillclimb", "sorting_hillclimb") and o["decn"]:
+                    reqs.append({"op": "c06.spec_localopt", "prob": p, "decn": o["decn"][0], "_t": "localopt"})
+                if o["algo"] == "sorting" and o["decn"] and not (p.get("quad") or p.get("posw")):
+                    reqs.append({"op": "c06.spec_optimum", "prob": p, "decn": o["decn"][0],
+                                 "obj": o["obj"][0][0] if o["obj"] and o["obj"][0] else 0, "_t": "optimum"})
+            return reqs
+        if kind == "old_hillclimb":
+            p = case["prob"]
+            neg = dict(p, obj_wt=canon.enc([-canon.dec(v) for v in p["obj_wt"]]))
+            neg = {a: b for a, b in neg.items() if a not in ("ineq", "ineq_wt", "eq", "eq_wt")}
+            flat = {a: b for a, b in p.items() if a not in ("ineq", "ineq_wt", "eq", "eq_wt")}
+            return [{"op": "c06.steepest_ascent", "prob": flat, "init": obs["init"]},
+                    {"op": "c06.spec_localopt", "prob": neg, "decn": obs["decn"]},
+                    {"op": "c06.spec_population", "space": p["space"], "k": p["k"], "rows": [obs["decn"]]}]
         if kind == "op_crossover":
             return [{"op": "c06.crossover", "a": case["a"], "b": case["b"], "mex": case["mex"]},
                     {"op": "c06.spec_population", "space": sorted(set(case["a"]) | set(case["b"])), "k": len(case["a"]),
@@ -955,7 +1658,7 @@ class C06(Prop):
         raise ValueError(kind)
 
     # ------------------------------------------------------------------ judge
-    def judge(self, case, obs, answers):
+    def _judge(self, case, obs, answers):
         kind = case["kind"]
         errs = [a["err"] for a in answers if "err" in a]
         if errs:
@@ -968,6 +1671,21 @@ class C06(Prop):
             return self._judge_direct(case, obs, ans)
         if kind == "ga":
             return self._judge_ga(case, obs, ans)
+        if kind == "history":
+            return self._judge_history(case, obs, ans)
+        if kind == "old_hillclimb":
+            mdl, lo, pop = ans
+            wt = [canon.dec(v) for v in case["prob"]["obj_wt"]]
+            truthful = canon.close_enc(obs["score"], obs["fresh"], 1e-9, 0)
+            fail = None if pop["ok"] else "infeasible"
+            fail = fail or (None if truthful else "untruthful") or (None if lo["ok"] else "not_locally_optimal") \
+                or (None if obs["space_untouched"] else "problem_modified")
+            spec = fail is None and obs["dtype_int"]
+            weval = sum(w * canon.dec(v) for w, v in zip(wt, obs["score"]))
+            corr = (mdl["decn"] == obs["decn"] and bool(mdl["stopped"]) and canon.close(weval, canon.dec(obs["weval"])))
+            return {"corr": bool(corr), "spec": bool(spec), "fail": fail,
+                    "nontrivial": len(case["prob"]["space"]) > case["prob"]["k"] and obs["decn"] != obs["init"],
+                    "detail": f"old_hillclimb: impl={obs} | model decn={mdl['decn']} localopt={lo} feasible={pop}"}
         if kind == "op_crossover":
             mdl, pop = ans
             corr = (mdl["c1"] == obs["c1"] and mdl["c2"] == obs["c2"] and obs["draws_left"] == 0)
@@ -1019,6 +1737,7 @@ class C06(Prop):
         elif not s2["ok"]:
             fail = "not_optimal" if kind == "sorting" else "not_locally_optimal"
         ev = ans[-1][0] if ans[-1] else None     # Lean evalfn at the implementation's decision
+        raw_ok = s2.get("ok_raw")
         vals_ok = (ev is not None and canon.close_enc(ev["obj"], obs["obj"][0])
                    and canon.close_enc(ev["ineqcv"], obs["ineqcv"][0])
                    and canon.close_enc(ev["eqcv"], obs["eqcv"][0])) if obs["nsoln"] == 1 and obs["obj"] else False
@@ -1041,8 +1760,8 @@ class C06(Prop):
             if kind == "sorting_hillclimb":
                 corr = corr and same_keys(ans[3], obs["init"]) and obs["singletons"] == [[e] for e in p["space"]]
         nontriv = n > k and obs["decn"] and sorted(obs["decn"][0]) != sorted(p["space"][:k])
-        return {"corr": bool(corr), "spec": bool(spec), "nontrivial": bool(nontriv), "fail": fail,
-                "detail": f"{kind}: impl decn={obs['decn']} obj={obs['obj']} G={obs['ineqcv']} H={obs['eqcv']} "
+        return {"corr": bool(corr), "spec": bool(spec), "nontrivial": bool(nontriv), "fail": fail, "raw_localopt": raw_ok,
+                "detail": f"{kind}: fail={fail} impl decn={obs['decn']} obj={obs['obj']} G={obs['ineqcv']} H={obs['eqcv']} "
                           f"init={obs.get('init')} | spec={s} extra={s2} | model={ {a: mdl[a] for a in ('decn', 'obj', 'ineqcv', 'eqcv')} }"}
 
     def _judge_ga(self, case, obs, ans):
@@ -1075,6 +1794,13 @@ class C06(Prop):
         # correspondence of the recorded operator calls
         calls = obs["calls"]
         bad = [("recorder", e, None) for e in obs.get("recorder_errors", [])]
+        if s is not None and obs.get("res") and _finite(obs["res"]):
+            # Solution assembly: the model applied to pymoo's result arrays gives the arrays of the Solution
+            a = ans[i]
+            i += 1
+            for f in ("decn", "obj", "ineqcv", "eqcv"):
+                if canon.dec(a[f]) != canon.dec(obs[f]):
+                    bad.append(("assemble:" + f, str(obs[f])[:200], str(a[f])[:200]))
         changed = False
         for c in calls["sampling"]:
             if ans[i] != c["row"] or c["replace"]:
@@ -1111,12 +1837,78 @@ class C06(Prop):
         nontriv = obs.get("nsoln", 0) >= 1 and (algo in VECTOR or len(p["space"]) > p["k"]) and \
             (algo in VECTOR or changed or obs.get("nsoln", 0) > 1 or sorted(obs["decn"][0]) != sorted(p["space"][:p["k"]]))
         return {"corr": not bad, "spec": bool(spec), "nontrivial": bool(nontriv), "fail": fail,
-                "detail": f"ga[{algo}] raised={obs['raised']} res_none={obs['res_none']} spec={s} "
+                "detail": f"ga[{algo}] fail={fail} problem_untouched={obs['problem_untouched']} raised={obs['raised']} res_none={obs['res_none']} spec={s} "
                           f"decn={str(obs.get('decn'))[:300]} obj={str(obs.get('obj'))[:200]} operator_mismatch={str(bad[:1])[:500]}"}
+
+    def _judge_history(self, case, obs, ans):
+        """Spec on every Solution at the moment it is returned and again at the end of the history"""
+        i = 0
+        fail = None
+        where = None
+        nsol = 0
+        details = []
+        raw_ok = None
+        vkind = case.get("vkind", "subset")
+        for o in obs["steps"] + [e for e in obs["end"] if e is not None]:
+            if o.get("op", "min") == "poke":
+                if not o["problem_untouched"]:
+                    fail, where = fail or "problem_modified", where or "poke"
+                continue
+            if o.get("op", "min") != "min":
+                continue
+            tag = f"{o.get('algo', 'end')}@{o.get('at', '')}"
+            if o.get("raised") is not None:
+                if not o.get("res_none"):
+                    fail, where = fail or ("raised:" + o["raised"]["type"]), where or tag
+                continue
+            if "decn" not in o or not self._wellformed(o):
+                fail, where = fail or "malformed", where or tag
+                continue
+            sp = ans[i]
+            i += 1
+            nsol += 1
+            f = None
+            if not sp["feasible"]:
+                f = "infeasible"
+            elif not sp["truthful"]:
+                f = "untruthful" if "at" not in o else "untruthful_later"
+            elif not sp["nondominated"]:
+                f = "dominated"
+            elif not sp["shapes"]:
+                f = "shapes"
+            elif "at" not in o and not o["problem_untouched"]:
+                f = "problem_modified"
+            p = o["state"]
+            if "at" not in o and vkind == "subset":
+                if o["algo"] in ("hillclimb", "sorting_hillclimb") and o["decn"]:
+                    lo = ans[i]
+                    i += 1
+                    if f is None and not lo["ok"]:
+                        f = "not_locally_optimal"
+                        raw_ok = lo.get("ok_raw")
+                if o["algo"] == "sorting" and o["decn"] and not (p.get("quad") or p.get("posw")):
+                    op = ans[i]
+                    i += 1
+                    if f is None and not op["ok"]:
+                        f = "not_optimal"
+            if f is not None and fail is None:
+                fail, where = f, tag
+                details.append(str(o)[:400])
+        return {"corr": fail is None, "spec": fail is None, "fail": fail, "nontrivial": nsol >= 2, "raw_localopt": raw_ok,
+                "detail": f"history: fail={fail} at {where} steps={[st.get('algo', st['op']) for st in case['steps']]} {details[:1]}"}
 
     # ------------------------------------------------------------------ findings / shrinking
     def signature(self, case, obs, verdict):
         sig = {"kind": case["kind"], "fail": verdict.get("fail")}
+        p = case.get("prob") or {}
+        if isinstance(p, dict):
+            # D41: signed constraint functions + a returned decision that IS a local optimum of the climbers' own
+            # raw key (Σ g + Σ h, score) but not of (Σ max(0,g) + Σ |h|, score)
+            sg = any(c.get("signed") for c in p.get("ineq", []) + p.get("eq", []))
+            sig["cv_form"] = "signed" if sg else "penalty"
+            sig["raw_localopt"] = verdict.get("raw_localopt")
+            # D42: the vectorised branch of Problem._evaluate (elementwise = False)
+            sig["elementwise"] = p.get("elementwise") is not False
         if case["kind"] == "ga":
             sig["algo"] = case["algo"]
             if case["algo"] not in VECTOR:
@@ -1124,6 +1916,17 @@ class C06(Prop):
         return sig
 
     def shrink(self, case):
+        if case["kind"] == "history":
+            # only steps are dropped (the indices of `set_space` refer to the table in force at that step): shorter
+            # prefixes first, then single steps that leave every later step valid
+            st = case["steps"]
+            for n_ in range(1, len(st)):
+                if st[n_ - 1]["op"] == "min":
+                    yield dict(case, steps=st[:n_])
+            for i in range(len(st)):
+                if st[i]["op"] in ("min", "poke", "set_wt", "set_cwt") and sum(1 for x in st if x["op"] == "min") > (1 if st[i]["op"] == "min" else 0):
+                    yield dict(case, steps=st[:i] + st[i + 1:])
+            return
         if "prob" in case and "space" in case["prob"]:
             p = case["prob"]
             n = len(p["space"])
@@ -1151,18 +1954,39 @@ class C06(Prop):
 
     # ------------------------------------------------------------------ self-test mutants
     def mutants(self):
-        def flagged(ctx):
+        def flagged(ctx, scope):
             @contextlib.contextmanager
             def run():
                 C06.MUTANT_ACTIVE = True
+                C06.MUTANT_SCOPE = scope
                 C06.TIMEOUTS = 0
                 try:
                     with ctx():
                         yield
                 finally:
                     C06.MUTANT_ACTIVE = False
+                    C06.MUTANT_SCOPE = None
             return run
-        return [(name, flagged(ctx)) for name, ctx in _mutants()]
+
+        def scope_of(name):
+            direct = {"sorting_hillclimb": ("sorting_hillclimb", "history"), "sorting": ("sorting", "history"),
+                      "hillclimb": ("hillclimb", "history"), "old_hillclimb": ("old_hillclimb",)}
+            for pre in ("sorting_hillclimb", "old_hillclimb", "sorting", "hillclimb"):
+                if name.startswith(pre + "_"):
+                    tags = direct[pre]
+                    return lambda tag: tag in tags
+            if name.startswith("integer_"):
+                return lambda tag: tag == "op_round" or "Integer" in tag
+            if name.startswith("nsga2real_"):
+                return lambda tag: "NSGA2Real" in tag
+            if name.startswith("history_"):
+                return lambda tag: tag == "history"
+            if name.startswith("subset_ga_"):
+                return lambda tag: tag in ("ga:SubsetGeneticAlgorithm", "history")
+            # operators of pymoo_addon, Problem._evaluate, Solution assembly: every evolutionary run, the
+            # operator-level cases and the histories
+            return lambda tag: tag.startswith("ga:") or tag.startswith("op_") or tag == "history"
+        return [(name, flagged(ctx, scope_of(name))) for name, ctx in _mutants()]
 
 
 def _mutants():
@@ -1291,7 +2115,160 @@ def _mutants():
                 yield
         return ctx
 
-    muts = [
+    # ---- round 4: one mutant per new class of cases ------------------------------------------------------------
+    import importlib
+    from pybrops.opt.prob.Problem import Problem as PbProblem
+    NSGA2Real = alg["NSGA2RealGeneticAlgorithm"].NSGA2RealGeneticAlgorithm
+    SubsetGA = alg["SubsetGeneticAlgorithm"].SubsetGeneticAlgorithm
+    OldHC = importlib.import_module("pybrops.opt.algo.UnconstrainedSteepestAscentSetHillClimber").UnconstrainedSteepestAscentSetHillClimber
+
+    def roll_G(res):
+        # constraint rows of another member (multi-objective) / satisfied constraints reported as 0 (single)
+        if res.G is None:
+            return
+        G = numpy.array(res.G, dtype=float, copy=True)
+        res.G = numpy.roll(G, 1, axis=0) if G.ndim == 2 and len(G) > 1 else numpy.maximum(G, 0.0)
+
+    def h_from_g(res):
+        if res.G is not None and res.H is not None and numpy.shape(res.G) == numpy.shape(res.H):
+            res.H = numpy.array(res.G, copy=True)
+
+    def round_F(res):
+        res.F = numpy.round(numpy.array(res.F, dtype=float), 8)
+
+    def memo_mutant(cls, attr="minimize"):
+        """the optimiser memoises its result per problem object: a second call after the user changed the
+        problem's weights returns the stale Solution"""
+        @contextlib.contextmanager
+        def ctx():
+            real = getattr(cls, attr)
+            memo = {}
+
+            def w(self, prob, *a, **k):
+                if id(prob) not in memo:
+                    memo[id(prob)] = (prob, real(self, prob, *a, **k))
+                return memo[id(prob)][1]
+            with _patched(cls, attr, w):
+                yield
+        return ctx
+
+    def buffer_mutant():
+        # the climber keeps one work buffer per object and hands a VIEW of it to the Solution: the next
+        # call overwrites the decision of the Solution returned before
+        src_old1 = "gbest_soln = self.rng.choice(prob.decn_space, prob.ndecn, replace = False)"
+        src_new1 = ("_new = self.rng.choice(prob.decn_space, prob.ndecn, replace = False); "
+                    "gbest_soln = getattr(self, '_buf', None); "
+                    "gbest_soln = _new if (gbest_soln is None or len(gbest_soln) != len(_new)) else gbest_soln; "
+                    "gbest_soln[:] = _new; self._buf = gbest_soln")
+        fn = recompile(SD.minimize, src_old1, src_new1)
+        import inspect
+        src = inspect.getsource(SD.minimize).replace("\r\n", "\n").replace(src_old1, src_new1)
+        assert "soln_decn = numpy.stack([gbest_soln])," in src
+        src = src.replace("soln_decn = numpy.stack([gbest_soln]),", "soln_decn = gbest_soln[None,:],")
+        ns = {}
+        exec(compile("if True:\n" + src, "<mutant SD.minimize buffer>", "exec"), SD.minimize.__globals__, ns)
+        new_fn = ns["minimize"]
+        return lambda: _patched(SD, "minimize", new_fn)
+
+    def set_cache_mutant():
+        # evaluation cache keyed by the SET of members: wrong for order-dependent objectives
+        import inspect
+        src = inspect.getsource(SD.minimize).replace("\r\n", "\n")
+        a = "prop_obj, prop_ineqcv, prop_eqcv = prob.evalfn(gbest_soln)"
+        assert a in src and "        # hillclimber\n" in src
+        src = src.replace(a, "prop_obj, prop_ineqcv, prop_eqcv = _ev(gbest_soln)")
+        src = src.replace("        # hillclimber\n", "        _cache = {}\n        def _ev(x):\n            key = tuple(sorted(x.tolist()))\n"
+                          "            if key not in _cache:\n                _cache[key] = prob.evalfn(x)\n            return _cache[key]\n", 1)
+        ns = {}
+        exec(compile("if True:\n" + src, "<mutant SD.minimize set cache>", "exec"), SD.minimize.__globals__, ns)
+        new_fn = ns["minimize"]
+        return lambda: _patched(SD, "minimize", new_fn)
+
+    def derive_bounds_mutant():
+        # fills optional bounds the caller left out (None) on the caller's problem object
+        @contextlib.contextmanager
+        def ctx():
+            real = SubsetGA.minimize
+
+            def w(self, prob, *a, **k):
+                if prob.decn_space_lower is None:
+                    prob.decn_space_lower = numpy.repeat(prob.decn_space.min(), prob.ndecn)
+                if prob.decn_space_upper is None:
+                    prob.decn_space_upper = numpy.repeat(prob.decn_space.max(), prob.ndecn)
+                return real(self, prob, *a, **k)
+            with _patched(SubsetGA, "minimize", w):
+                yield
+        return ctx
+
+    def stale_xl_mutant():
+        # RealProblem bound setters stop mirroring into the pymoo-facing xl / xu
+        from pybrops.opt.prob.RealProblem import RealProblem
+        @contextlib.contextmanager
+        def ctx():
+            with contextlib.ExitStack() as st:
+                for name, priv in (("decn_space_lower", "_decn_space_lower"), ("decn_space_upper", "_decn_space_upper")):
+                    old_prop = RealProblem.__dict__[name]
+
+                    def fset(self, value, _p=priv):
+                        setattr(self, _p, value)
+                    st.enter_context(_patched(RealProblem, name, property(old_prop.fget, fset)))
+                yield
+        return ctx
+
+    def ranking_cache_mutant():
+        # the sorting optimiser keeps the candidate ranking per id(prob)
+        import inspect
+        src = inspect.getsource(Sort.minimize).replace("\r\n", "\n")
+        a = "ix = obj.argsort(0)"
+        assert a in src
+        src = src.replace(a, "_rk = self.__dict__.setdefault('_ranking', {}); ix = _rk.setdefault(id(prob), obj.argsort(0))")
+        ns = {}
+        exec(compile("if True:\n" + src, "<mutant Sort.minimize ranking cache>", "exec"), Sort.minimize.__globals__, ns)
+        new_fn = ns["minimize"]
+        return lambda: _patched(Sort, "minimize", new_fn)
+
+    muts4 = [
+        ("subset_ga_derives_missing_bounds_on_the_problem", derive_bounds_mutant()),
+        ("history_real_problem_bound_setters_leave_xl_xu_stale", stale_xl_mutant()),
+        ("sorting_caches_ranking_by_problem_id", ranking_cache_mutant()),
+        ("hillclimb_caches_evaluation_per_member_set", set_cache_mutant()),
+        # (1) histories / aliasing
+        ("sorting_memoises_result_per_problem", memo_mutant(Sort)),
+        ("hillclimb_memoises_result_per_problem", memo_mutant(SD)),
+        ("subset_ga_memoises_result_per_problem", memo_mutant(SubsetGA)),
+        ("hillclimb_solution_views_reused_buffer", buffer_mutant()),
+        # (3) sizes past an internal constant: a cap on the number of exchanges
+        ("hillclimb_at_most_ndecn_moves", method_mutant(SD, "minimize", "while True:", "for _move in range(prob.ndecn):")),
+        ("sorting_hillclimb_at_most_n_half_moves", method_mutant(SSD, "minimize", "while True:", "for _move in range(len(prob.decn_space)//2):")),
+        # (2) magnitudes against tolerance-style comparisons
+        ("hillclimb_isclose_tie", method_mutant(SD, "minimize", "elif (prop_cv == best_cv) and (prop_score < best_score):",
+                                                "elif (prop_cv == best_cv) and (prop_score < best_score) and not numpy.isclose(prop_score, best_score):")),
+        ("sorting_hillclimb_isclose_tie", method_mutant(SSD, "minimize", "elif (prop_cv == best_cv) and (prop_score < best_score):",
+                                                        "elif (prop_cv == best_cv) and (prop_score < best_score) and not numpy.isclose(prop_score, best_score):")),
+        ("hillclimb_min_improvement_1e-9", method_mutant(SD, "minimize", "elif (prop_cv == best_cv) and (prop_score < best_score):",
+                                                         "elif (prop_cv == best_cv) and (prop_score < best_score - 1e-9):")),
+        ("sorting_keys_float32", method_mutant(Sort, "minimize", "ix = obj.argsort(0)", "ix = obj.astype(numpy.float32).argsort(0, kind='stable')")),
+        ("sorting_keys_rounded_6", method_mutant(Sort, "minimize", "ix = obj.argsort(0)", "ix = obj.round(6).argsort(0, kind='stable')")),
+        ("solution_obj_rounded_8", res_mutant(round_F)),
+        # signed constraint functions through the pymoo-facing evaluation and the Solution assembly
+        ("problem_evaluate_clips_G", method_mutant(PbProblem, "_evaluate", "vals = self.evalfn(x, *args, **kwargs)",
+                                                   "vals = self.evalfn(x, *args, **kwargs); vals = (vals[0], numpy.maximum(vals[1], 0.0), vals[2])")),
+        ("solution_reports_other_G", res_mutant(roll_G)),
+        ("solution_eqcv_taken_from_G", res_mutant(h_from_g)),
+        ("nsga2real_front_sorted_but_G_not", method_mutant(
+            NSGA2Real, "minimize", "soln_decn = res.X\n            soln_obj = res.F\n",
+            "_o = numpy.argsort(res.F[:,0], kind='stable')\n            soln_decn = res.X[_o]\n            soln_obj = res.F[_o]\n")),
+        # (4) rarely used argument forms
+        ("subset_ga_seed_draw_needs_generator", method_mutant(SubsetGA, "minimize", "int(self.rng.randint(0, 2**31-1)) if isinstance(self.rng, RandomState) else", "")),
+        ("hillclimb_miscout_path_shifts_obj", method_mutant(SD, "minimize", 'miscout["gbest_cv"] = gbest_cv',
+                                                              'miscout["gbest_cv"] = gbest_cv; out.soln_obj[:] = out.soln_obj + 1.0')),
+        # (5) the older copy of the exchange climber
+        ("old_hillclimb_isclose_tie", method_mutant(OldHC, "optimize", "if wscore > best_wscore:", "if wscore > best_wscore and not numpy.isclose(wscore, best_wscore):")),
+        ("old_hillclimb_scan_skips_last_member", method_mutant(OldHC, "optimize", "for i in range(len(gbest_soln)):", "for i in range(len(gbest_soln)-1):")),
+        ("old_hillclimb_reports_start_score", method_mutant(OldHC, "optimize", "gbest_score = best_score\n", "pass\n")),
+    ]
+
+    muts = muts4 + [
         ("sorting_ix_shifted", method_mutant(Sort, "minimize", "gbest_ix = ix[0:ndecn,0]", "gbest_ix = ix[1:ndecn+1,0] if len(ix) > ndecn else ix[0:ndecn,0]")),
         ("sorting_descending", method_mutant(Sort, "minimize", "ix = obj.argsort(0)", "ix = (-obj).argsort(0)")),
         ("sorting_reports_stale_obj", method_mutant(Sort, "minimize", "soln_obj = numpy.stack([gbest_obj]),", "soln_obj = numpy.stack([obj[gbest_ix[0]]]),")),
